@@ -2,22 +2,25 @@
 
    Contents
      1. order / list / sorted-map helpers (ascend_from, firstn/skipn of sorted lists)
-     2. exec / replay: pointwise effect of a command ("touch"), well-formedness
+     2. exec / replay: well-formedness, the per-object action of a command (act), the shrinklog is
+        idempotent per object (acts_idem), replay of snapshot records
      3. characterisation of the batch scans and of one rewrite step (step_cases)
      4. T1/T2: the new file (snapshot ++ shrinklog) replays to the live dataset (no RENAME)
      5. T5: the records are emitted in strictly increasing (key,id) order (all schedules), and
         in the quiescent case are exactly the objects of the dataset
-     6. T3: refutations with RENAME
-     7. T4: crash points of the final section
-     8. T6: termination of the quiescent run
-     9. example data for Props/C09.v; the quiescent snapshot equals map rec_of (flatten s) *)
+     6. T3: refutations with RENAME;  7. T4: crash points of the final section, leftovers
+     8. T6: termination of the quiescent run;  9. requests;  10. hooks;  11. TTL digits;
+     12. example data for Props/C09.v *)
 From Coq Require Import List NArith ZArith Bool Lia Sorted.
 From Coq Require Import ZifyN ZifyNat ZifyBool.
 From T38 Require Import Base.Bytes Base.SMap Model.Shrink.
 Import ListNotations.
 Local Open Scope nat_scope.
 
-Definition wf (s : st) : Prop := msorted s /\ Forall (fun kc => msorted (snd kc)) s.
+Definition wfc (col : coll) : Prop := msorted col /\ Forall (fun io => msorted (o_fields (snd io))) col.
+Definition wf (s : st) : Prop :=
+  msorted s /\
+  Forall (fun kc => msorted (snd kc) /\ Forall (fun io => msorted (o_fields (snd io))) (snd kc)) s.
 Definition same_data (a b : st) : Prop := forall k i, lookup k i a = lookup k i b.
 
 (* ------------------------------------------------------------------ 1. helpers *)
@@ -169,115 +172,286 @@ Proof. intros H. unfold lookup. rewrite get_del_same by exact H. reflexivity. Qe
 Lemma lookup_del_other k k' s i : k <> k' -> lookup k i (del k' s) = lookup k i s.
 Proof. intros H. unfold lookup. rewrite get_del_other by exact H. reflexivity. Qed.
 
-Lemma wf_nil : wf [].
-Proof. split; constructor. Qed.
-
-Lemma wf_get s k col : wf s -> get k s = Some col -> msorted col.
-Proof. intros [_ HF] Hg. exact (Forall_get _ _ _ _ HF Hg). Qed.
-
 Lemma lookup_some s k i v : lookup k i s = Some v -> exists col, get k s = Some col /\ get i col = Some v.
 Proof. unfold lookup. destruct (get k s) as [col|]; [|discriminate]. intros H. exists col. auto. Qed.
 
-Lemma exec_wf s c : wf s -> wf (fst (exec s c)).
+Lemma obj_eta o : mkObj (o_geo o) (o_fields o) (o_dl o) = o.
+Proof. destruct o; reflexivity. Qed.
+
+(* well-formedness *)
+Lemma wf_nil : wf [].
+Proof. split; constructor. Qed.
+
+Lemma wfc_nil : wfc [].
+Proof. split; constructor. Qed.
+
+Lemma wf_get s k col : wf s -> get k s = Some col -> wfc col.
+Proof. intros [_ HF] Hg. exact (Forall_get _ _ _ _ HF Hg). Qed.
+
+Lemma wfc_get col i o : wfc col -> get i col = Some o -> msorted (o_fields o).
+Proof. intros [_ HF] Hg. exact (Forall_get _ _ _ _ HF Hg). Qed.
+
+Lemma wf_lookup s k i o : wf s -> lookup k i s = Some o -> msorted (o_fields o).
 Proof.
-  intros Hwf. pose proof Hwf as [Hs HF]. destruct c as [k i v|k i|k|a b|]; cbn.
-  - split; [apply msorted_set; exact Hs|]. apply Forall_set; [exact HF|]. cbn. apply msorted_set.
-    destruct (get k s) eqn:E; [eapply wf_get; eauto | apply msorted_nil].
-  - destruct (get k s) as [col|] eqn:E; [|exact Hwf]. destruct (get i col) eqn:Ei; [|exact Hwf]. cbn.
-    destruct (del i col) eqn:Ed.
-    + split; [apply msorted_del; exact Hs | apply Forall_del; exact HF].
-    + rewrite <- Ed. split; [apply msorted_set; exact Hs|]. apply Forall_set; [exact HF|]. cbn.
-      apply msorted_del. eapply wf_get; eauto.
-  - destruct (get k s) eqn:E; [|exact Hwf]. cbn. split; [apply msorted_del; exact Hs | apply Forall_del; exact HF].
-  - destruct (get a s) as [col|] eqn:E; [|exact Hwf]. cbn. split.
-    + apply msorted_set, msorted_del, msorted_del; exact Hs.
-    + apply Forall_set; [apply Forall_del, Forall_del; exact HF|]. cbn. eapply wf_get; eauto.
-  - apply wf_nil.
+  intros Hwf H. destruct (lookup_some _ _ _ _ H) as [col [Hk Hi]].
+  eapply wfc_get; [eapply wf_get; eauto | exact Hi].
 Qed.
 
-Lemma exec_not_logged s c : logged (snd (exec s c)) = false -> fst (exec s c) = s.
+Lemma wfc_set col i o : wfc col -> msorted (o_fields o) -> wfc (set i o col).
+Proof. intros [H1 H2] Ho. split; [apply msorted_set; exact H1 | apply Forall_set; assumption]. Qed.
+
+Lemma wfc_del col i : wfc col -> wfc (del i col).
+Proof. intros [H1 H2]. split; [apply msorted_del; exact H1 | apply Forall_del; exact H2]. Qed.
+
+Lemma keys_filter_in {V} (f : bytes * V -> bool) (m : smap V) x : In x (keys (filter f m)) -> In x (keys m).
 Proof.
-  destruct c as [k i v|k i|k|a b|]; cbn; try discriminate.
-  - destruct (get k s) as [col|]; [|reflexivity]. destruct (get i col); [discriminate | reflexivity].
-  - destruct (get k s); [discriminate | reflexivity].
-  - destruct (get a s); [discriminate | reflexivity].
+  unfold keys. intros H. apply in_map_iff in H. destruct H as [kv [<- H]]. apply filter_In in H.
+  apply in_map. tauto.
+Qed.
+
+Lemma msorted_filter {V} (f : bytes * V -> bool) (m : smap V) : msorted m -> msorted (filter f m).
+Proof.
+  induction m as [|[k v] r IH]; intros Hs; cbn; [exact Hs|].
+  pose proof (msorted_inv _ _ _ Hs) as [Hr Hall]. destruct (f (k, v)); [|apply IH; exact Hr].
+  apply msorted_cons; [apply IH; exact Hr|]. rewrite Forall_forall in *. intros x Hx. apply Hall.
+  eapply keys_filter_in; exact Hx.
+Qed.
+
+Lemma Forall_filter {A} (Q : A -> Prop) f (l : list A) : Forall Q l -> Forall Q (filter f l).
+Proof. rewrite !Forall_forall. intros H x Hx. apply filter_In in Hx. apply H; tauto. Qed.
+
+Lemma wfc_filter col f : wfc col -> wfc (filter f col).
+Proof. intros [H1 H2]. split; [apply msorted_filter; exact H1 | apply Forall_filter; exact H2]. Qed.
+
+Lemma wf_set s k col : wf s -> wfc col -> wf (set k col s).
+Proof. intros [H1 H2] Hc. split; [apply msorted_set; exact H1 | apply Forall_set; assumption]. Qed.
+
+Lemma wf_del s k : wf s -> wf (del k s).
+Proof. intros [H1 H2]. split; [apply msorted_del; exact H1 | apply Forall_del; exact H2]. Qed.
+
+Lemma wf_put_col s k col : wf s -> wfc col -> wf (put_col k col s).
+Proof. intros Hs Hc. unfold put_col. destruct col; [apply wf_del; exact Hs | apply wf_set; assumption]. Qed.
+
+(* fields *)
+Lemma fset1_sorted fs u : msorted fs -> msorted (fset1 fs u).
+Proof. intros H. unfold fset1. destruct (snd u); [apply msorted_set | apply msorted_del]; exact H. Qed.
+
+Lemma apply_fields_sorted us : forall fs, msorted fs -> msorted (apply_fields fs us).
+Proof. unfold apply_fields. induction us as [|u r IH]; intros fs H; cbn; [exact H|]. apply IH, fset1_sorted, H. Qed.
+
+Lemma apply_fields_app fs a b : apply_fields fs (a ++ b) = apply_fields (apply_fields fs a) b.
+Proof. unfold apply_fields. apply fold_left_app. Qed.
+
+Lemma ofval_eqb_eq a b : ofval_eqb a b = true -> a = b.
+Proof. destruct a, b; cbn; try discriminate; try reflexivity. intros H. apply bytes_eqb_eq in H. congruence. Qed.
+
+Lemma fset1_same fs u : msorted fs -> get (fst u) fs = snd u -> fset1 fs u = fs.
+Proof.
+  intros Hs H. unfold fset1. destruct (snd u) as [v|]; [apply set_same | apply del_absent]; assumption.
+Qed.
+
+Lemma fset_loop_apply us : forall fs n, msorted fs -> fst (fset_loop fs us n) = apply_fields fs us.
+Proof.
+  induction us as [|u r IH]; intros fs n Hs; cbn; [reflexivity|].
+  destruct (ofval_eqb (get (fst u) fs) (snd u)) eqn:E.
+  - apply ofval_eqb_eq in E. rewrite (fset1_same fs u Hs E). apply IH; exact Hs.
+  - apply IH. apply fset1_sorted; exact Hs.
+Qed.
+
+Lemma fset_loop_count us : forall fs n,
+  n <= snd (fset_loop fs us n) /\ (snd (fset_loop fs us n) = n -> fst (fset_loop fs us n) = fs).
+Proof.
+  induction us as [|u r IH]; intros fs n; cbn; [auto|].
+  destruct (ofval_eqb (get (fst u) fs) (snd u)); [apply IH|].
+  destruct (IH (fset1 fs u) (S n)) as [H1 H2]. split; lia.
+Qed.
+
+(* collections inside the dataset *)
+Lemma lookup_upd s k' col i' o k i :
+  (forall j, get j col = lookup k' j s) ->
+  lookup k i (set k' (set i' o col) s) = if bytes_eqb k k' && bytes_eqb i i' then Some o else lookup k i s.
+Proof.
+  intros Hc. destruct (bytes_eqb k k') eqn:Ek; cbn.
+  - apply bytes_eqb_eq in Ek; subst k'. rewrite lookup_set_same. destruct (bytes_eqb i i') eqn:Ei.
+    + apply bytes_eqb_eq in Ei; subst i'. apply get_set_same.
+    + apply eqb_false_neq in Ei. rewrite get_set_other by exact Ei. apply Hc.
+  - apply eqb_false_neq in Ek. apply lookup_set_other; exact Ek.
+Qed.
+
+Lemma col_lookup (s : st) k (col : coll) : get k s = Some col -> forall j, get j col = lookup k j s.
+Proof. intros H j. unfold lookup. rewrite H. reflexivity. Qed.
+
+Lemma lookup_put_col s k' col' k i : msorted s ->
+  lookup k i (put_col k' col' s) = if bytes_eqb k k' then get i col' else lookup k i s.
+Proof.
+  intros Hs. unfold put_col. destruct (bytes_eqb k k') eqn:Ek.
+  - apply bytes_eqb_eq in Ek; subst k'. destruct col'; [apply lookup_del_same; exact Hs | apply lookup_set_same].
+  - apply eqb_false_neq in Ek. destruct col'; [apply lookup_del_other | apply lookup_set_other]; exact Ek.
+Qed.
+
+Lemma get_filter_key {V} (p : bytes -> bool) (m : smap V) i :
+  get i (filter (fun iv => negb (p (fst iv))) m) = if p i then None else get i m.
+Proof.
+  induction m as [|[k v] r IH]; cbn; [destruct (p i); reflexivity|].
+  destruct (p k) eqn:Ep; cbn.
+  - rewrite IH. destruct (bytes_eqb i k) eqn:E; [|reflexivity]. apply bytes_eqb_eq in E; subst. rewrite Ep. reflexivity.
+  - destruct (bytes_eqb i k) eqn:E.
+    + apply bytes_eqb_eq in E; subst. rewrite Ep. reflexivity.
+    + exact IH.
+Qed.
+
+Lemma filter_len_le {A} (f : A -> bool) (l : list A) : length (filter f l) <= length l.
+Proof. induction l as [|x l IH]; cbn; [lia|]. destruct (f x); cbn; lia. Qed.
+
+Lemma filter_length_eq {A} f (l : list A) : length (filter f l) = length l -> filter f l = l.
+Proof.
+  induction l as [|x l IH]; cbn; [reflexivity|]. destruct (f x); cbn.
+  - intros H. f_equal. apply IH. lia.
+  - intros H. pose proof (filter_len_le f l). lia.
+Qed.
+
+Lemma exec_wf s c : wf s -> wf (fst (exec s c)).
+Proof.
+  intros Hwf. destruct c as [k i us ex geo|k i us|k i|k i|k i|k pat|k|a b|]; cbn.
+  - apply wf_set; [exact Hwf|]. destruct (get k s) as [col|] eqn:E.
+    + pose proof (wf_get _ _ _ Hwf E) as Hc. apply wfc_set; [exact Hc|]. cbn. apply apply_fields_sorted.
+      destruct (get i col) eqn:Ei; [eapply wfc_get; eauto | constructor].
+    + apply wfc_set; [apply wfc_nil|]. cbn. apply apply_fields_sorted. constructor.
+  - destruct (get k s) as [col|] eqn:E; [|exact Hwf]. destruct (get i col) as [o|] eqn:Ei; [|exact Hwf].
+    pose proof (wf_get _ _ _ Hwf E) as Hc. pose proof (wfc_get _ _ _ Hc Ei) as Ho.
+    pose proof (fset_loop_apply us (o_fields o) 0 Ho) as Hfl.
+    destruct (fset_loop (o_fields o) us 0) as [fs' n]. cbn in *. subst fs'.
+    apply wf_set; [exact Hwf|]. apply wfc_set; [exact Hc|]. cbn. apply apply_fields_sorted; exact Ho.
+  - destruct (get k s) as [col|] eqn:E; [|exact Hwf]. destruct (get i col) as [o|] eqn:Ei; [|exact Hwf]. cbn.
+    pose proof (wf_get _ _ _ Hwf E) as Hc. apply wf_set; [exact Hwf|]. apply wfc_set; [exact Hc|]. cbn. eapply wfc_get; eauto.
+  - destruct (get k s) as [col|] eqn:E; [|exact Hwf]. destruct (get i col) as [o|] eqn:Ei; [|exact Hwf].
+    destruct (o_dl o); [|exact Hwf]. cbn.
+    pose proof (wf_get _ _ _ Hwf E) as Hc. apply wf_set; [exact Hwf|]. apply wfc_set; [exact Hc|]. cbn. eapply wfc_get; eauto.
+  - destruct (get k s) as [col|] eqn:E; [|exact Hwf]. destruct (get i col) eqn:Ei; [|exact Hwf]. cbn.
+    apply wf_put_col; [exact Hwf|]. apply wfc_del. eapply wf_get; eauto.
+  - destruct (get k s) as [col|] eqn:E; [|exact Hwf].
+    destruct (Nat.eqb _ _); [exact Hwf|]. cbn. apply wf_put_col; [exact Hwf|]. apply wfc_filter. eapply wf_get; eauto.
+  - destruct (get k s) eqn:E; [|exact Hwf]. cbn. apply wf_del; exact Hwf.
+  - destruct (get a s) as [col|] eqn:E; [|exact Hwf]. cbn. apply wf_set; [apply wf_del, wf_del; exact Hwf|].
+    eapply wf_get; eauto.
+  - apply wf_nil.
 Qed.
 
 Definition nr_cmd (c : cmd) : bool := match c with CRename _ _ => false | _ => true end.
 
-(* the effect of a (non-RENAME) command on the object (k,i): None = untouched,
-   Some r = afterwards the lookup is r whatever it was before *)
-Definition touch (c : cmd) (k i : bytes) : option (option val) :=
+Definition samepair (k i k' i' : bytes) : bool := bytes_eqb k k' && bytes_eqb i i'.
+
+Lemma samepair_true k i k' i' : samepair k i k' i' = true -> k = k' /\ i = i'.
+Proof. unfold samepair. intros H. apply andb_true_iff in H. destruct H as [H1 H2]. apply bytes_eqb_eq in H1, H2. auto. Qed.
+
+Lemma samepair_refl k i : samepair k i k i = true.
+Proof. unfold samepair. rewrite !bytes_eqb_refl. reflexivity. Qed.
+
+Definition oflds (x : option obj) : smap fval := match x with Some o => o_fields o | None => [] end.
+
+(* the effect of a (non-RENAME) command on the object (k,i), as a function of its old value *)
+Definition act (c : cmd) (k i : bytes) (x : option obj) : option obj :=
   match c with
-  | CSet k' i' v => if bytes_eqb k k' && bytes_eqb i i' then Some (Some v) else None
-  | CDel k' i' => if bytes_eqb k k' && bytes_eqb i i' then Some None else None
-  | CDrop k' => if bytes_eqb k k' then Some None else None
-  | CRename _ _ => None
-  | CFlushdb => Some None
+  | CSet k' i' us ex geo =>
+      if samepair k i k' i' then Some (mkObj geo (apply_fields (oflds x) us) ex) else x
+  | CFset k' i' us =>
+      if samepair k i k' i'
+      then option_map (fun o => mkObj (o_geo o) (apply_fields (o_fields o) us) (o_dl o)) x else x
+  | CExpire k' i' =>
+      if samepair k i k' i' then option_map (fun o => mkObj (o_geo o) (o_fields o) true) x else x
+  | CPersist k' i' =>
+      if samepair k i k' i' then option_map (fun o => mkObj (o_geo o) (o_fields o) false) x else x
+  | CDel k' i' => if samepair k i k' i' then None else x
+  | CPdel k' pat => if bytes_eqb k k' && pmatch pat i then None else x
+  | CDrop k' => if bytes_eqb k k' then None else x
+  | CRename _ _ => x
+  | CFlushdb => None
   end.
 
 Lemma exec_lookup s c k i : wf s -> nr_cmd c = true ->
-  lookup k i (fst (exec s c)) = match touch c k i with Some r => r | None => lookup k i s end.
+  lookup k i (fst (exec s c)) = act c k i (lookup k i s).
 Proof.
-  intros Hwf Hnr. pose proof Hwf as [Hs HF]. destruct c as [k' i' v|k' i'|k'|a b|]; cbn in Hnr |- *; try discriminate.
-  - destruct (bytes_eqb k k') eqn:Ek; cbn.
-    + apply bytes_eqb_eq in Ek; subst k'. rewrite lookup_set_same.
-      destruct (bytes_eqb i i') eqn:Ei.
-      * apply bytes_eqb_eq in Ei; subst i'. apply get_set_same.
-      * apply eqb_false_neq in Ei. rewrite get_set_other by exact Ei. unfold lookup. destruct (get k s); reflexivity.
-    + apply eqb_false_neq in Ek. apply lookup_set_other; exact Ek.
-  - destruct (bytes_eqb k k') eqn:Ek; cbn.
-    + apply bytes_eqb_eq in Ek; subst k'.
-      destruct (get k s) as [col|] eqn:E.
-      * pose proof (wf_get _ _ _ Hwf E) as Hcol.
-        destruct (get i' col) eqn:Ei'; cbn.
-        -- assert (Hd : forall j, lookup k j (match del i' col with [] => del k s | _ :: _ => set k (del i' col) s end)
-                                  = get j (del i' col)).
-           { intros j. destruct (del i' col) eqn:Ed; [rewrite lookup_del_same by exact Hs; reflexivity|].
-             rewrite lookup_set_same. reflexivity. }
-           rewrite Hd. destruct (bytes_eqb i i') eqn:Ei.
-           ++ apply bytes_eqb_eq in Ei; subst i'. apply get_del_same; exact Hcol.
-           ++ apply eqb_false_neq in Ei. rewrite get_del_other by exact Ei. unfold lookup. rewrite E. reflexivity.
-        -- destruct (bytes_eqb i i') eqn:Ei; [|reflexivity].
-           apply bytes_eqb_eq in Ei; subst i'. unfold lookup. rewrite E. exact Ei'.
-      * cbn. unfold lookup. rewrite E. destruct (bytes_eqb i i'); reflexivity.
-    + apply eqb_false_neq in Ek.
-      destruct (get k' s) as [col|] eqn:E; [|reflexivity]. destruct (get i' col) eqn:Ei'; [|reflexivity]. cbn.
-      destruct (del i' col); [apply lookup_del_other | apply lookup_set_other]; exact Ek.
-  - destruct (bytes_eqb k k') eqn:Ek.
-    + apply bytes_eqb_eq in Ek; subst k'. destruct (get k s) eqn:E; cbn.
+  intros Hwf Hnr. pose proof Hwf as [Hs _].
+  destruct c as [k' i' us ex geo|k' i' us|k' i'|k' i'|k' i'|k' pat|k'|a b|]; cbn [exec act]; try discriminate.
+  - (* SET *)
+    set (col := match get k' s with Some c => c | None => [] end).
+    assert (Hc : forall j, get j col = lookup k' j s) by (intros j; unfold col, lookup; destruct (get k' s); reflexivity).
+    cbn [fst]. rewrite (lookup_upd s k' col i' _ k i Hc). fold (samepair k i k' i').
+    destruct (samepair k i k' i') eqn:E; [|reflexivity]. apply samepair_true in E. destruct E; subst k' i'.
+    rewrite <- Hc. destruct (get i col); reflexivity.
+  - (* FSET *)
+    destruct (get k' s) as [col|] eqn:Ek.
+    + destruct (get i' col) as [o|] eqn:Ei.
+      * pose proof (wfc_get _ _ _ (wf_get _ _ _ Hwf Ek) Ei) as Ho.
+        pose proof (fset_loop_apply us (o_fields o) 0 Ho) as Hfl.
+        destruct (fset_loop (o_fields o) us 0) as [fs' n]. cbn [fst] in *. subst fs'.
+        rewrite (lookup_upd s k' col i' _ k i (col_lookup _ _ _ Ek)). fold (samepair k i k' i').
+        destruct (samepair k i k' i') eqn:E; [|reflexivity]. apply samepair_true in E. destruct E; subst k' i'.
+        unfold lookup. rewrite Ek, Ei. reflexivity.
+      * cbn [fst]. destruct (samepair k i k' i') eqn:E; [|reflexivity]. apply samepair_true in E. destruct E; subst k' i'.
+        unfold lookup. rewrite Ek, Ei. reflexivity.
+    + cbn [fst]. destruct (samepair k i k' i') eqn:E; [|reflexivity]. apply samepair_true in E. destruct E; subst k' i'.
+      unfold lookup. rewrite Ek. reflexivity.
+  - (* EXPIRE *)
+    destruct (get k' s) as [col|] eqn:Ek.
+    + destruct (get i' col) as [o|] eqn:Ei; cbn [fst].
+      * rewrite (lookup_upd s k' col i' _ k i (col_lookup _ _ _ Ek)). fold (samepair k i k' i').
+        destruct (samepair k i k' i') eqn:E; [|reflexivity]. apply samepair_true in E. destruct E; subst k' i'.
+        unfold lookup. rewrite Ek, Ei. reflexivity.
+      * destruct (samepair k i k' i') eqn:E; [|reflexivity]. apply samepair_true in E. destruct E; subst k' i'.
+        unfold lookup. rewrite Ek, Ei. reflexivity.
+    + cbn [fst]. destruct (samepair k i k' i') eqn:E; [|reflexivity]. apply samepair_true in E. destruct E; subst k' i'.
+      unfold lookup. rewrite Ek. reflexivity.
+  - (* PERSIST *)
+    destruct (get k' s) as [col|] eqn:Ek.
+    + destruct (get i' col) as [o|] eqn:Ei; cbn [fst].
+      * destruct (o_dl o) eqn:Ed; cbn [fst].
+        -- rewrite (lookup_upd s k' col i' _ k i (col_lookup _ _ _ Ek)). fold (samepair k i k' i').
+           destruct (samepair k i k' i') eqn:E; [|reflexivity]. apply samepair_true in E. destruct E; subst k' i'.
+           unfold lookup. rewrite Ek, Ei. reflexivity.
+        -- destruct (samepair k i k' i') eqn:E; [|reflexivity]. apply samepair_true in E. destruct E; subst k' i'.
+           unfold lookup. rewrite Ek, Ei. cbn. rewrite <- Ed, obj_eta. reflexivity.
+      * destruct (samepair k i k' i') eqn:E; [|reflexivity]. apply samepair_true in E. destruct E; subst k' i'.
+        unfold lookup. rewrite Ek, Ei. reflexivity.
+    + cbn [fst]. destruct (samepair k i k' i') eqn:E; [|reflexivity]. apply samepair_true in E. destruct E; subst k' i'.
+      unfold lookup. rewrite Ek. reflexivity.
+  - (* DEL *)
+    destruct (get k' s) as [col|] eqn:Ek.
+    + destruct (get i' col) as [o|] eqn:Ei; cbn [fst].
+      * rewrite lookup_put_col by exact Hs. unfold samepair. destruct (bytes_eqb k k') eqn:E; cbn [andb]; [|reflexivity].
+        apply bytes_eqb_eq in E; subst k'. destruct (bytes_eqb i i') eqn:E2.
+        -- apply bytes_eqb_eq in E2; subst i'. apply get_del_same. apply (wf_get _ _ _ Hwf Ek).
+        -- apply eqb_false_neq in E2. rewrite get_del_other by exact E2. apply (col_lookup _ _ _ Ek).
+      * destruct (samepair k i k' i') eqn:E; [|reflexivity]. apply samepair_true in E. destruct E; subst k' i'.
+        unfold lookup. rewrite Ek, Ei. reflexivity.
+    + cbn [fst]. destruct (samepair k i k' i') eqn:E; [|reflexivity]. apply samepair_true in E. destruct E; subst k' i'.
+      unfold lookup. rewrite Ek. reflexivity.
+  - (* PDEL *)
+    destruct (get k' s) as [col|] eqn:Ek.
+    + pose proof (get_filter_key (pmatch pat) col i) as Hf.
+      destruct (Nat.eqb_spec (length (filter (fun iv => negb (pmatch pat (fst iv))) col)) (length col)) as [El|El]; cbn [fst].
+      * apply filter_length_eq in El. rewrite El in Hf.
+        destruct (bytes_eqb k k') eqn:E; cbn [andb]; [|reflexivity]. apply bytes_eqb_eq in E; subst k'.
+        destruct (pmatch pat i); [|reflexivity]. unfold lookup. rewrite Ek. exact Hf.
+      * rewrite lookup_put_col by exact Hs. destruct (bytes_eqb k k') eqn:E; cbn [andb]; [|reflexivity].
+        apply bytes_eqb_eq in E; subst k'. rewrite Hf. destruct (pmatch pat i); [reflexivity|]. apply (col_lookup _ _ _ Ek).
+    + cbn [fst]. destruct (bytes_eqb k k') eqn:E; cbn [andb]; [|reflexivity]. apply bytes_eqb_eq in E; subst k'.
+      destruct (pmatch pat i); [|reflexivity]. unfold lookup. rewrite Ek. reflexivity.
+  - (* DROP *)
+    destruct (bytes_eqb k k') eqn:E.
+    + apply bytes_eqb_eq in E; subst k'. destruct (get k s) eqn:Ek; cbn [fst].
       * apply lookup_del_same; exact Hs.
-      * unfold lookup. rewrite E. reflexivity.
-    + apply eqb_false_neq in Ek. destruct (get k' s) eqn:E; cbn; [|reflexivity]. apply lookup_del_other; exact Ek.
+      * unfold lookup. rewrite Ek. reflexivity.
+    + apply eqb_false_neq in E. destruct (get k' s); cbn [fst]; [apply lookup_del_other; exact E | reflexivity].
   - reflexivity.
 Qed.
 
-Fixpoint last_touch (l : list cmd) (k i : bytes) : option (option val) :=
-  match l with
-  | [] => None
-  | c :: r => match last_touch r k i with Some x => Some x | None => touch c k i end
-  end.
+(* a list of commands seen from the object (k,i) *)
+Fixpoint acts (l : list cmd) (k i : bytes) (x : option obj) : option obj :=
+  match l with [] => x | c :: r => acts r k i (act c k i x) end.
 
-Lemma last_touch_app a b k i :
-  last_touch (a ++ b) k i = match last_touch b k i with Some x => Some x | None => last_touch a k i end.
-Proof.
-  induction a as [|c a IH]; cbn.
-  - destruct (last_touch b k i); reflexivity.
-  - rewrite IH. destruct (last_touch b k i); reflexivity.
-Qed.
-
-Lemma last_touch_none l k i : last_touch l k i = None -> forall c, In c l -> touch c k i = None.
-Proof.
-  induction l as [|c l IH]; cbn; [tauto|]. destruct (last_touch l k i); [discriminate|].
-  intros H c' [<-|Hc]; [exact H | apply IH; [reflexivity | exact Hc]].
-Qed.
-
-Lemma last_touch_some l k i x : last_touch l k i = Some x -> exists c, In c l /\ touch c k i = Some x.
-Proof.
-  induction l as [|c l IH]; cbn; [discriminate|]. destruct (last_touch l k i) eqn:E.
-  - intros H; inversion H; subst. destruct (IH eq_refl) as [c' [H1 H2]]. exists c'. auto.
-  - intros H. exists c. auto.
-Qed.
+Lemma acts_app a b k i x : acts (a ++ b) k i x = acts b k i (acts a k i x).
+Proof. revert x. induction a as [|c a IH]; intros x; cbn; [reflexivity | apply IH]. Qed.
 
 Lemma replay_app a b s : replay (a ++ b) s = replay b (replay a s).
 Proof. revert s. induction a as [|c a IH]; intros s; cbn; [reflexivity | apply IH]. Qed.
@@ -286,37 +460,386 @@ Lemma replay_wf l s : wf s -> wf (replay l s).
 Proof. revert s. induction l as [|c l IH]; intros s H; cbn; [exact H | apply IH, exec_wf; exact H]. Qed.
 
 Lemma replay_lookup l : forall s k i, wf s -> forallb nr_cmd l = true ->
-  lookup k i (replay l s) = match last_touch l k i with Some r => r | None => lookup k i s end.
+  lookup k i (replay l s) = acts l k i (lookup k i s).
 Proof.
   induction l as [|c l IH]; intros s k i Hwf Hnr; cbn; [reflexivity|].
   cbn in Hnr. apply andb_true_iff in Hnr. destruct Hnr as [Hc Hl].
-  rewrite IH by (try apply exec_wf; assumption).
-  destruct (last_touch l k i); [reflexivity|]. apply exec_lookup; assumption.
+  rewrite IH by (try apply exec_wf; assumption). rewrite exec_lookup by assumption. reflexivity.
 Qed.
 
-Definition is_cset (c : cmd) : Prop := match c with CSet _ _ _ => True | _ => False end.
+Ltac miss Ek Ei :=
+  match goal with
+  | |- context [samepair ?k ?i ?k' ?i'] =>
+      let E := fresh "E" in
+      destruct (samepair k i k' i') eqn:E;
+      [apply samepair_true in E; destruct E; subst; unfold lookup; rewrite ?Ek, ?Ei; reflexivity | reflexivity]
+  end.
+
+(* a command that was not logged did not change anything *)
+Lemma exec_unlogged s c k i : wf s -> logged (snd (exec s c)) = false ->
+  act c k i (lookup k i s) = lookup k i s.
+Proof.
+  intros Hwf. destruct c as [k' i' us ex geo|k' i' us|k' i'|k' i'|k' i'|k' pat|k'|a b|]; cbn [exec act]; try discriminate.
+  - destruct (get k' s) as [col|] eqn:Ek; [|intros _; miss Ek Ek].
+    destruct (get i' col) as [o|] eqn:Ei; [|intros _; miss Ek Ei].
+    pose proof (wfc_get _ _ _ (wf_get _ _ _ Hwf Ek) Ei) as Ho.
+    pose proof (fset_loop_apply us (o_fields o) 0 Ho) as Hfl.
+    pose proof (fset_loop_count us (o_fields o) 0) as [_ Hcnt].
+    destruct (fset_loop (o_fields o) us 0) as [fs' n]. cbn [fst snd] in *. destruct n; [|discriminate]. intros _.
+    destruct (samepair k i k' i') eqn:E; [|reflexivity]. apply samepair_true in E. destruct E; subst k' i'.
+    unfold lookup. rewrite Ek, Ei. cbn. rewrite <- Hfl, (Hcnt eq_refl), obj_eta. reflexivity.
+  - destruct (get k' s) as [col|] eqn:Ek; [|intros _; miss Ek Ek].
+    destruct (get i' col) as [o|] eqn:Ei; [discriminate|intros _; miss Ek Ei].
+  - destruct (get k' s) as [col|] eqn:Ek; [|intros _; miss Ek Ek].
+    destruct (get i' col) as [o|] eqn:Ei; [|intros _; miss Ek Ei].
+    destruct (o_dl o) eqn:Ed; [discriminate|]. intros _.
+    destruct (samepair k i k' i') eqn:E; [|reflexivity]. apply samepair_true in E. destruct E; subst k' i'.
+    unfold lookup. rewrite Ek, Ei. cbn. rewrite <- Ed, obj_eta. reflexivity.
+  - destruct (get k' s) as [col|] eqn:Ek; [|intros _; miss Ek Ek].
+    destruct (get i' col) as [o|] eqn:Ei; [discriminate|intros _; miss Ek Ei].
+  - destruct (get k' s) as [col|] eqn:Ek.
+    + pose proof (get_filter_key (pmatch pat) col i) as Hf.
+      destruct (Nat.eqb_spec (length (filter (fun iv => negb (pmatch pat (fst iv))) col)) (length col)) as [El|El];
+        [|discriminate]. intros _. apply filter_length_eq in El. rewrite El in Hf.
+      destruct (bytes_eqb k k') eqn:E; cbn [andb]; [|reflexivity]. apply bytes_eqb_eq in E; subst k'.
+      destruct (pmatch pat i); [|reflexivity]. unfold lookup. rewrite Ek. symmetry; exact Hf.
+    + intros _. destruct (bytes_eqb k k') eqn:E; cbn [andb]; [|reflexivity]. apply bytes_eqb_eq in E; subst k'.
+      destruct (pmatch pat i); [|reflexivity]. unfold lookup. rewrite Ek. reflexivity.
+  - destruct (get k' s) eqn:Ek; [discriminate|]. intros _.
+    destruct (bytes_eqb k k') eqn:E; [|reflexivity]. apply bytes_eqb_eq in E; subst k'. unfold lookup. rewrite Ek. reflexivity.
+  - reflexivity.
+Qed.
+
+(* FSET / EXPIRE / PERSIST act on (k,i) only when the object exists *)
+Definition cond (c : cmd) (k i : bytes) : bool :=
+  match c with
+  | CFset k' i' _ | CExpire k' i' | CPersist k' i' => samepair k i k' i'
+  | _ => false
+  end.
+
+Lemma exec_logged_cond s c k i : logged (snd (exec s c)) = true -> cond c k i = true -> lookup k i s <> None.
+Proof.
+  destruct c as [k' i' us ex geo|k' i' us|k' i'|k' i'|k' i'|k' pat|k'|a b|]; cbn [exec cond]; try discriminate;
+    intros Hl Hc; apply samepair_true in Hc; destruct Hc; subst k' i'; unfold lookup;
+    (destruct (get k s) as [col|]; [|discriminate Hl]); (destruct (get i col); [discriminate | discriminate Hl]).
+Qed.
+
+(* classification of the other actions *)
+Definition isreset (c : cmd) (k i : bytes) : bool :=
+  match c with
+  | CDel k' i' => samepair k i k' i'
+  | CPdel k' pat => bytes_eqb k k' && pmatch pat i
+  | CDrop k' => bytes_eqb k k'
+  | CFlushdb => true
+  | _ => false
+  end.
+
+Definition isset (c : cmd) (k i : bytes) : bool :=
+  match c with CSet k' i' _ _ _ => samepair k i k' i' | _ => false end.
+
+(* the action on an existing object *)
+Definition gstep (c : cmd) (k i : bytes) (g : bytes) : bytes :=
+  match c with CSet k' i' _ _ geo => if samepair k i k' i' then geo else g | _ => g end.
+Definition dstep (c : cmd) (k i : bytes) (d : bool) : bool :=
+  match c with
+  | CSet k' i' _ ex _ => if samepair k i k' i' then ex else d
+  | CExpire k' i' => if samepair k i k' i' then true else d
+  | CPersist k' i' => if samepair k i k' i' then false else d
+  | _ => d
+  end.
+Definition ustep (c : cmd) (k i : bytes) : fupd :=
+  match c with
+  | CSet k' i' us _ _ | CFset k' i' us => if samepair k i k' i' then us else []
+  | _ => []
+  end.
+Definition tr (c : cmd) (k i : bytes) (o : obj) : obj :=
+  mkObj (gstep c k i (o_geo o)) (apply_fields (o_fields o) (ustep c k i)) (dstep c k i (o_dl o)).
+
+Definition e0 : obj := mkObj [] [] false.
+Definition base (x : option obj) : obj := match x with Some o => o | None => e0 end.
+Definition issome {A} (x : option A) : bool := match x with Some _ => true | None => false end.
+
+Lemma act_reset c k i x : isreset c k i = true -> act c k i x = None.
+Proof. destruct c; cbn; try discriminate; intros H; try rewrite H; reflexivity. Qed.
+
+Lemma act_some c k i o : isreset c k i = false -> act c k i (Some o) = Some (tr c k i o).
+Proof.
+  unfold tr. destruct c; cbn; intros H; try discriminate; try rewrite H;
+    try (destruct (samepair _ _ _ _)); cbn; rewrite ?obj_eta; reflexivity.
+Qed.
+
+Lemma act_none c k i : isreset c k i = false -> cond c k i = false ->
+  act c k i None = if isset c k i then Some (tr c k i e0) else None.
+Proof.
+  unfold tr. destruct c; cbn; intros H1 H2; try discriminate; try rewrite H1; try rewrite H2;
+    try (destruct (samepair _ _ _ _)); reflexivity.
+Qed.
+
+Lemma tr_nop c k i o : isset c k i = false -> cond c k i = false -> tr c k i o = o.
+Proof.
+  unfold tr. destruct c; cbn; intros H1 H2; try rewrite H1; try rewrite H2; cbn; apply obj_eta.
+Qed.
+
+Fixpoint trs (l : list cmd) (k i : bytes) (o : obj) : obj :=
+  match l with [] => o | c :: r => trs r k i (tr c k i o) end.
+
+Definition has_reset (l : list cmd) (k i : bytes) : bool := existsb (fun c => isreset c k i) l.
+Definition has_set (l : list cmd) (k i : bytes) : bool := existsb (fun c => isset c k i) l.
+
+(* every conditional entry for (k,i) finds the object: true of a shrinklog, whose entries were
+   all `Updated` when they ran *)
+Fixpoint okl (l : list cmd) (k i : bytes) (x : option obj) : Prop :=
+  match l with
+  | [] => True
+  | c :: r => (cond c k i = true -> x <> None) /\ okl r k i (act c k i x)
+  end.
+
+Lemma okl_app a b k i x : okl (a ++ b) k i x <-> okl a k i x /\ okl b k i (acts a k i x).
+Proof.
+  revert x. induction a as [|c a IH]; intros x; cbn; [tauto|]. rewrite IH. tauto.
+Qed.
+
+Lemma acts_reset_const l k i : has_reset l k i = true -> forall x x', acts l k i x = acts l k i x'.
+Proof.
+  induction l as [|c l IH]; cbn; [discriminate|]. intros H x x'. destruct (isreset c k i) eqn:E.
+  - rewrite !(act_reset c k i _ E). reflexivity.
+  - apply IH. exact H.
+Qed.
+
+Lemma acts_some l k i : forall o, has_reset l k i = false -> acts l k i (Some o) = Some (trs l k i o).
+Proof.
+  induction l as [|c l IH]; intros o H; cbn; [reflexivity|]. cbn in H. apply orb_false_iff in H. destruct H as [H1 H2].
+  rewrite act_some by exact H1. apply IH; exact H2.
+Qed.
+
+Lemma acts_trs l k i : forall x, has_reset l k i = false -> okl l k i x ->
+  acts l k i x = if issome x || has_set l k i then Some (trs l k i (base x)) else None.
+Proof.
+  induction l as [|c l IH]; intros x H Hok; cbn [acts trs has_set existsb].
+  - destruct x; reflexivity.
+  - cbn in H. apply orb_false_iff in H. destruct H as [H1 H2]. destruct Hok as [Hc Hok].
+    destruct x as [o|].
+    + rewrite act_some in * by exact H1. rewrite IH by assumption. reflexivity.
+    + assert (Hcf : cond c k i = false) by (destruct (cond c k i); [exfalso; apply Hc; reflexivity | reflexivity]).
+      rewrite act_none in * by assumption. cbn [issome orb base]. destruct (isset c k i) eqn:Es; cbn [orb].
+      * rewrite IH by assumption. reflexivity.
+      * rewrite IH by assumption. cbn [issome orb base]. rewrite (tr_nop c k i e0 Es Hcf). reflexivity.
+Qed.
+
+(* component form of the composed action *)
+Fixpoint G (l : list cmd) (k i : bytes) (g : bytes) : bytes :=
+  match l with [] => g | c :: r => G r k i (gstep c k i g) end.
+Fixpoint D (l : list cmd) (k i : bytes) (d : bool) : bool :=
+  match l with [] => d | c :: r => D r k i (dstep c k i d) end.
+Fixpoint US (l : list cmd) (k i : bytes) : fupd :=
+  match l with [] => [] | c :: r => ustep c k i ++ US r k i end.
+
+Lemma trs_form l k i : forall o,
+  trs l k i o = mkObj (G l k i (o_geo o)) (apply_fields (o_fields o) (US l k i)) (D l k i (o_dl o)).
+Proof.
+  induction l as [|c l IH]; intros o; cbn [trs G D US]; [symmetry; apply obj_eta|].
+  rewrite IH. unfold tr. cbn [o_geo o_fields o_dl]. rewrite apply_fields_app. reflexivity.
+Qed.
+
+Definition ioc {A} (f : A -> A) : Prop := (forall a, f a = a) \/ (exists c, forall a, f a = c).
+
+Lemma ioc_idem {A} (f : A -> A) a : ioc f -> f (f a) = f a.
+Proof. intros [H|[c H]]; [rewrite !H; reflexivity | rewrite !H; reflexivity]. Qed.
+
+Lemma ioc_comp {A} (f g : A -> A) : ioc f -> ioc g -> ioc (fun a => g (f a)).
+Proof.
+  intros [Hf|[c Hf]] [Hg|[d Hg]].
+  - left. intros a. rewrite Hf, Hg. reflexivity.
+  - right. exists d. intros a. apply Hg.
+  - right. exists c. intros a. rewrite Hg, Hf. reflexivity.
+  - right. exists d. intros a. apply Hg.
+Qed.
+
+Lemma G_ioc l k i : ioc (G l k i).
+Proof.
+  induction l as [|c l IH]; cbn [G]; [left; reflexivity|].
+  apply (ioc_comp (gstep c k i) (G l k i)); [|exact IH].
+  destruct c; unfold gstep; try (left; reflexivity).
+  match goal with |- context [samepair ?a ?b ?c ?d] => destruct (samepair a b c d) end; [right; eexists; reflexivity | left; reflexivity].
+Qed.
+
+Lemma D_ioc l k i : ioc (D l k i).
+Proof.
+  induction l as [|c l IH]; cbn [D]; [left; reflexivity|].
+  apply (ioc_comp (dstep c k i) (D l k i)); [|exact IH].
+  destruct c; unfold dstep; try (left; reflexivity);
+  match goal with |- context [samepair ?a ?b ?c ?d] => destruct (samepair a b c d) end; try (left; reflexivity); right; eexists; reflexivity.
+Qed.
+
+(* fields, by name *)
+Fixpoint lastupd (n : bytes) (us : fupd) : option (option fval) :=
+  match us with
+  | [] => None
+  | u :: r => match lastupd n r with Some x => Some x | None => if bytes_eqb n (fst u) then Some (snd u) else None end
+  end.
+
+Lemma get_fset1 fs u n : msorted fs -> get n (fset1 fs u) = if bytes_eqb n (fst u) then snd u else get n fs.
+Proof.
+  intros Hs. unfold fset1. destruct (bytes_eqb n (fst u)) eqn:E.
+  - apply bytes_eqb_eq in E; subst n. destruct (snd u); [apply get_set_same | apply get_del_same; exact Hs].
+  - apply eqb_false_neq in E. destruct (snd u); [apply get_set_other | apply get_del_other]; exact E.
+Qed.
+
+Lemma get_apply_fields us : forall fs n, msorted fs ->
+  get n (apply_fields fs us) = match lastupd n us with Some u => u | None => get n fs end.
+Proof.
+  induction us as [|u r IH]; intros fs n Hs; [reflexivity|].
+  change (apply_fields fs (u :: r)) with (apply_fields (fset1 fs u) r).
+  rewrite IH by (apply fset1_sorted; exact Hs). cbn [lastupd]. destruct (lastupd n r); [reflexivity|].
+  rewrite get_fset1 by exact Hs. destruct (bytes_eqb n (fst u)); reflexivity.
+Qed.
+
+Lemma apply_fields_idem fs us : msorted fs -> apply_fields (apply_fields fs us) us = apply_fields fs us.
+Proof.
+  intros Hs. pose proof (apply_fields_sorted us fs Hs) as H1.
+  apply smap_ext; [apply apply_fields_sorted; exact H1 | exact H1|]. intros n.
+  rewrite get_apply_fields by exact H1. destruct (lastupd n us) eqn:E; [|reflexivity].
+  rewrite get_apply_fields by exact Hs. rewrite E. reflexivity.
+Qed.
+
+Lemma trs_idem l k i o : msorted (o_fields o) -> trs l k i (trs l k i o) = trs l k i o.
+Proof.
+  intros Hs. rewrite (trs_form l k i (trs l k i o)). rewrite (trs_form l k i o). cbn [o_geo o_fields o_dl].
+  rewrite (ioc_idem _ _ (G_ioc l k i)), (ioc_idem _ _ (D_ioc l k i)), apply_fields_idem by exact Hs. reflexivity.
+Qed.
+
+Definition fsorted (x : option obj) : Prop := match x with Some o => msorted (o_fields o) | None => True end.
+
+(* replaying a shrinklog on its own result changes nothing, per object *)
+Theorem acts_idem l k i x0 : fsorted x0 -> okl l k i x0 ->
+  acts l k i (acts l k i x0) = acts l k i x0.
+Proof.
+  intros Hs Hok. destruct (has_reset l k i) eqn:Hr; [apply acts_reset_const; exact Hr|].
+  rewrite (acts_trs l k i x0 Hr Hok). destruct (issome x0 || has_set l k i) eqn:E.
+  - rewrite acts_some by exact Hr. rewrite trs_idem; [reflexivity|]. destruct x0; [exact Hs | constructor].
+  - apply orb_false_iff in E. destruct E as [E1 E2]. destruct x0; [discriminate|].
+    rewrite (acts_trs l k i None Hr Hok). cbn [issome orb]. rewrite E2. reflexivity.
+Qed.
+
+(* the form used for the new file: the snapshot holds the value at some earlier time (after the
+   prefix l1 of the final log l1 ++ l2); replaying the whole log on it gives the final value *)
+Theorem log_idempotent k i l1 l2 x0 : fsorted x0 -> okl (l1 ++ l2) k i x0 ->
+  acts (l1 ++ l2) k i (acts l1 k i x0) = acts (l1 ++ l2) k i x0.
+Proof.
+  intros Hs Hok. apply okl_app in Hok. destruct Hok as [Hok _].
+  rewrite !acts_app. rewrite acts_idem by assumption. reflexivity.
+Qed.
+
+(* snapshot records *)
+Definition is_cset (c : cmd) : Prop := match c with CSet _ _ _ _ _ => True | _ => False end.
+
+Definition rec_lt (a b : cmd) : Prop :=
+  match a, b with
+  | CSet k i _ _ _, CSet k' i' _ _ _ => bytes_ltb k k' = true \/ (k = k' /\ bytes_ltb i i' = true)
+  | _, _ => False
+  end.
+
+Definition rec_sorted (l : list cmd) : Prop := Forall is_cset l /\ StronglySorted rec_lt l.
 
 Lemma cset_nr l : Forall is_cset l -> forallb nr_cmd l = true.
 Proof. induction 1 as [|c l Hc _ IH]; cbn; [reflexivity|]. rewrite IH. destruct c; cbn in *; tauto. Qed.
 
-Lemma touch_cset_some c k i x : is_cset c -> touch c k i = Some x -> exists v, x = Some v /\ c = CSet k i v.
+Lemma fields_of_inj a : forall b, fields_of a = fields_of b -> a = b.
 Proof.
-  destruct c as [k' i' v| | | |]; cbn; try tauto. intros _.
-  destruct (bytes_eqb k k') eqn:Ek; cbn; [|discriminate]. destruct (bytes_eqb i i') eqn:Ei; [|discriminate].
-  apply bytes_eqb_eq in Ek, Ei. subst. intros H; inversion H. exists v. auto.
+  induction a as [|[n v] a IH]; intros [|[n' v'] b]; cbn; try discriminate; [reflexivity|].
+  intros H. inversion H; subst. f_equal. apply IH; assumption.
 Qed.
 
-Lemma touch_cset_same k i v : touch (CSet k i v) k i = Some (Some v).
-Proof. cbn. rewrite !bytes_eqb_refl. reflexivity. Qed.
+Lemma rec_cmd_inj k i o k' i' o' : rec_cmd k i o = rec_cmd k' i' o' -> k = k' /\ i = i' /\ o = o'.
+Proof.
+  unfold rec_cmd. intros H. inversion H as [[H1 H2 H3 H4 H5]]. apply fields_of_inj in H3.
+  split; [reflexivity|]. split; [reflexivity|]. destruct o, o'; cbn in *; subst; reflexivity.
+Qed.
+
+Lemma lastupd_fields_of fs n : msorted fs ->
+  lastupd n (fields_of fs) = match get n fs with Some v => Some (Some v) | None => None end.
+Proof.
+  induction fs as [|[m v] r IH]; intros Hs; [reflexivity|].
+  change (fields_of ((m, v) :: r)) with ((m, Some v) :: fields_of r). cbn [lastupd get fst snd].
+  pose proof (msorted_inv _ _ _ Hs) as [Hr Hall]. rewrite IH by exact Hr.
+  destruct (bytes_eqb n m) eqn:E.
+  - apply bytes_eqb_eq in E; subst m. rewrite (get_below _ _ Hall). reflexivity.
+  - destruct (get n r); reflexivity.
+Qed.
+
+Lemma apply_fields_of fs : msorted fs -> apply_fields [] (fields_of fs) = fs.
+Proof.
+  intros Hs. apply smap_ext; [apply apply_fields_sorted; constructor | exact Hs|]. intros n.
+  rewrite get_apply_fields by constructor. rewrite lastupd_fields_of by exact Hs. destruct (get n fs); reflexivity.
+Qed.
+
+Lemma act_rec_none k i o : msorted (o_fields o) -> act (rec_cmd k i o) k i None = Some o.
+Proof. intros Hs. cbn. rewrite samepair_refl. cbn. rewrite apply_fields_of by exact Hs. rewrite obj_eta. reflexivity. Qed.
+
+(* the record of an object recreates exactly that object *)
+Theorem snapshot_record_exact k i o s : wf s -> msorted (o_fields o) -> lookup k i s = None ->
+  lookup k i (fst (exec s (rec_cmd k i o))) = Some o.
+Proof. intros Hwf Hs Hl. rewrite exec_lookup by (exact Hwf || reflexivity). rewrite Hl. apply act_rec_none; exact Hs. Qed.
+
+Lemma act_cset_miss c k i x : is_cset c -> isset c k i = false -> act c k i x = x.
+Proof. destruct c; cbn; try tauto. intros _ ->. reflexivity. Qed.
+
+Lemma acts_miss l k i x : Forall is_cset l -> (forall c, In c l -> isset c k i = false) -> acts l k i x = x.
+Proof.
+  induction l as [|c l IH]; intros Hcs Hm; cbn; [reflexivity|]. inversion Hcs; subst.
+  rewrite act_cset_miss; [|assumption|apply Hm; left; reflexivity]. apply IH; [assumption|]. intros; apply Hm; right; assumption.
+Qed.
+
+Lemma rec_lt_hit a b k i : rec_lt a b -> isset a k i = true -> isset b k i = true -> False.
+Proof.
+  destruct a, b; cbn; try tauto. intros H Ha Hb. apply samepair_true in Ha, Hb. destruct Ha, Hb; subst.
+  rewrite !ltb_irrefl in H. destruct H as [H|[_ H]]; discriminate.
+Qed.
+
+Lemma acts_sorted_hit out c k i x : rec_sorted out -> In c out -> isset c k i = true ->
+  acts out k i x = act c k i x.
+Proof.
+  intros [Hcs Hss] Hin Hc. apply in_split in Hin. destruct Hin as [a [b ->]].
+  apply Forall_app in Hcs. destruct Hcs as [Hca Hcb]. inversion Hcb; subst.
+  apply SS_app_inv in Hss. destruct Hss as [_ [Hsb Hab]]. apply StronglySorted_inv in Hsb. destruct Hsb as [_ Hb].
+  rewrite Forall_forall in Hb.
+  rewrite acts_app. cbn [acts]. rewrite (acts_miss a).
+  - apply acts_miss; [assumption|]. intros c' Hc'. destruct (isset c' k i) eqn:E; [|reflexivity].
+    exfalso. eapply rec_lt_hit; [apply Hb; exact Hc' | exact Hc | exact E].
+  - assumption.
+  - intros c' Hc'. destruct (isset c' k i) eqn:E; [|reflexivity].
+    exfalso. eapply rec_lt_hit; [apply Hab; [exact Hc' | left; reflexivity] | exact E | exact Hc].
+Qed.
+
+Definition recwf (c : cmd) : Prop := exists k i o, c = rec_cmd k i o /\ msorted (o_fields o).
+
+Lemma isset_rec k i o k' i' : isset (rec_cmd k' i' o) k i = samepair k i k' i'.
+Proof. reflexivity. Qed.
+
+Lemma snap_value_some out k i o : rec_sorted out -> Forall recwf out -> In (rec_cmd k i o) out ->
+  acts out k i None = Some o.
+Proof.
+  intros Hrs Hwf Hin. rewrite (acts_sorted_hit out (rec_cmd k i o) k i None Hrs Hin) by (rewrite isset_rec; apply samepair_refl).
+  apply act_rec_none. rewrite Forall_forall in Hwf. destruct (Hwf _ Hin) as [k' [i' [o' [Heq Hs]]]].
+  apply rec_cmd_inj in Heq. destruct Heq as [_ [_ ->]]. exact Hs.
+Qed.
+
+Lemma snap_value_none out k i : rec_sorted out -> Forall recwf out -> (forall o, ~ In (rec_cmd k i o) out) ->
+  acts out k i None = None.
+Proof.
+  intros [Hcs _] Hwf Hno. apply acts_miss; [exact Hcs|]. intros c Hc. rewrite Forall_forall in Hwf.
+  destruct (Hwf _ Hc) as [k' [i' [o' [-> _]]]]. rewrite isset_rec. destruct (samepair k i k' i') eqn:E; [|reflexivity].
+  apply samepair_true in E. destruct E; subst. exfalso. eapply Hno; exact Hc.
+Qed.
 
 (* ------------------------------------------------------------------ 3. scans and one step *)
 
-Definition recs (k : bytes) (l : list (bytes * val)) : list cmd := map (fun iv => CSet k (fst iv) (snd iv)) l.
+Definition recs (k : bytes) (l : list (bytes * val)) : list cmd := map (fun iv => rec_cmd k (fst iv) (snd iv)) l.
 
-Lemma in_recs c k l : In c (recs k l) -> exists i v, c = CSet k i v /\ In (i, v) l.
+Lemma in_recs c k l : In c (recs k l) -> exists i v, c = rec_cmd k i v /\ In (i, v) l.
 Proof. unfold recs. intros H. apply in_map_iff in H. destruct H as [[i v] [<- H]]. exists i, v. auto. Qed.
 
-Lemma recs_in k l i v : In (i, v) l -> In (CSet k i v) (recs k l).
+Lemma recs_in k l i v : In (i, v) l -> In (rec_cmd k i v) (recs k l).
 Proof. intros H. unfold recs. apply in_map_iff. exists (i, v). auto. Qed.
 
 Lemma recs_cset k l : Forall is_cset (recs k l).
@@ -418,7 +941,7 @@ Qed.
 (* the records a step adds: objects of the live dataset *)
 Lemma step_out live sh : wf live -> shape sh ->
   exists new, sh_out (step mk mi live sh) = sh_out sh ++ new /\
-              forall c, In c new -> exists k i v, c = CSet k i v /\ lookup k i live = Some v.
+              forall c, In c new -> exists k i v, c = rec_cmd k i v /\ lookup k i live = Some v.
 Proof.
   intros Hwf Hs. pose proof (step_cases live sh) as H. unfold shape in Hs. destruct (sh_pos sh) as [|nid|] eqn:Ep.
   - exists []. rewrite (H Hs), top_out, app_nil_r. split; [reflexivity | intros ? []].
@@ -456,8 +979,8 @@ Proof.
 Qed.
 
 Lemma step_cover live sh k i v : wf live -> shape sh -> lookup k i live = Some v ->
-  In (CSet k i v) (sh_out sh) \/ pending k i sh ->
-  In (CSet k i v) (sh_out (step mk mi live sh)) \/ pending k i (step mk mi live sh).
+  In (rec_cmd k i v) (sh_out sh) \/ pending k i sh ->
+  In (rec_cmd k i v) (sh_out (step mk mi live sh)) \/ pending k i (step mk mi live sh).
 Proof.
   intros Hwf Hs Hl [Hin|Hp].
   { left. destruct (step_out live sh Hwf Hs) as [new [-> _]]. apply in_app_iff. left; exact Hin. }
@@ -497,223 +1020,18 @@ Proof.
     + rewrite H. right. apply top_pending. destruct Hp as [[-> _]|Hp]; [congruence | exact Hp].
 Qed.
 
-(* ------------------------------------------------------------------ 4. T1 / T2 *)
-
-Definition nr_ev (e : ev) : bool := negb (is_rename e).
-
-Record inv1 (s0 : st) (r : run) : Prop := {
-  i_shr : r_shrinking r = true;
-  i_wf : wf (r_live r);
-  i_nr : forallb nr_cmd (r_log r) = true;
-  i_live : forall k i, lookup k i (r_live r) =
-             match last_touch (r_log r) k i with Some x => x | None => lookup k i s0 end;
-  i_shape : shape (r_sh r);
-  i_cset : Forall is_cset (sh_out (r_sh r));
-  i_sound : forall k i v, last_touch (r_log r) k i = None ->
-             In (CSet k i v) (sh_out (r_sh r)) -> lookup k i s0 = Some v;
-  i_cover : forall k i v, last_touch (r_log r) k i = None -> lookup k i s0 = Some v ->
-             In (CSet k i v) (sh_out (r_sh r)) \/ pending k i (r_sh r)
-}.
-
-Lemma inv1_init s0 : wf s0 -> inv1 s0 (run_init s0).
-Proof.
-  intros Hwf. constructor; cbn; auto.
-  - intros k i v _ []. 
-  - intros k i v _ _. right. unfold pending; cbn. apply leb_nil.
-Qed.
-
-Lemma inv1_step s0 r e : nr_ev e = true -> inv1 s0 r -> inv1 s0 (do_ev mk mi r e).
-Proof.
-  intros Hnr [Hshr Hwf Hlog Hlive Hsh Hcs Hsound Hcover]. destruct e as [c| |]; cbn [do_ev].
-  - (* writer *)
-    assert (Hc : nr_cmd c = true) by (destruct c; cbn in *; congruence).
-    pose proof (exec_wf (r_live r) c Hwf) as Hwf'.
-    pose proof (exec_lookup (r_live r) c) as Hel.
-    pose proof (exec_not_logged (r_live r) c) as Hnl.
-    destruct (exec (r_live r) c) as [s' o]. cbn [fst snd] in *. rewrite Hshr. cbn [andb].
-    destruct (logged o) eqn:Elog.
-    + constructor; cbn [r_live r_sh r_log r_shrinking]; auto.
-      * rewrite forallb_app, Hlog. cbn. rewrite Hc. reflexivity.
-      * intros k i. rewrite last_touch_app. cbn [last_touch]. rewrite Hel by assumption.
-        destruct (touch c k i); [reflexivity | apply Hlive].
-      * intros k i v Hlt. rewrite last_touch_app in Hlt. cbn [last_touch] in Hlt.
-        destruct (touch c k i); [discriminate|]. apply Hsound; exact Hlt.
-      * intros k i v Hlt. rewrite last_touch_app in Hlt. cbn [last_touch] in Hlt.
-        destruct (touch c k i); [discriminate|]. apply Hcover; exact Hlt.
-    + rewrite (Hnl eq_refl) in *. constructor; cbn [r_live r_sh r_log r_shrinking]; auto.
-  - (* a locked section of the rewrite *)
-    destruct (step_out (r_live r) (r_sh r) Hwf Hsh) as [new [Hout Hnew]].
-    constructor; cbn [r_live r_sh r_log r_shrinking]; auto.
-    + apply step_shape; exact Hsh.
-    + rewrite Hout. apply Forall_app. split; [exact Hcs|]. rewrite Forall_forall. intros c Hc.
-      destruct (Hnew c Hc) as [k [i [v [-> _]]]]. exact I.
-    + intros k i v Hlt Hin. rewrite Hout in Hin. apply in_app_iff in Hin. destruct Hin as [Hin|Hin].
-      * apply Hsound; assumption.
-      * destruct (Hnew _ Hin) as [k' [i' [v' [Heq Hl]]]]. inversion Heq; subst k' i' v'.
-        rewrite Hlive, Hlt in Hl. exact Hl.
-    + intros k i v Hlt Hl. apply step_cover; auto.
-      rewrite Hlive, Hlt. exact Hl.
-  - (* another AOFSHRINK request while the rewrite runs: refused *)
-    unfold request. rewrite Hshr. constructor; assumption.
-Qed.
-
-Lemma request_noop r : r_shrinking r = true -> request r = r.
-Proof. intros H. unfold request. rewrite H. reflexivity. Qed.
-
-Lemma inv1_run s0 sched : forall r, forallb nr_ev sched = true -> inv1 s0 r -> inv1 s0 (run_sched mk mi sched r).
-Proof.
-  unfold run_sched. induction sched as [|e sched IH]; intros r Hnr Hinv; cbn; [exact Hinv|].
-  cbn in Hnr. apply andb_true_iff in Hnr. destruct Hnr as [He Hs]. apply IH; [exact Hs|]. apply inv1_step; assumption.
-Qed.
-
-Lemma pending_done k i sh : sh_done sh = true -> ~ pending k i sh.
-Proof. unfold sh_done, pending. destruct (sh_pos sh); try discriminate. tauto. Qed.
-
-Lemma inv1_done s0 r : inv1 s0 r -> sh_done (r_sh r) = true -> same_data (replay (newfile r) []) (r_live r).
-Proof.
-  intros [_ Hwf Hlog Hlive Hsh Hcs Hsound Hcover] Hdone k i.
-  unfold newfile. rewrite replay_lookup; [|exact wf_nil|rewrite forallb_app, Hlog, (cset_nr _ Hcs); reflexivity].
-  rewrite last_touch_app, Hlive, lookup_nil.
-  destruct (last_touch (r_log r) k i) as [x|] eqn:Elt; [reflexivity|].
-  destruct (last_touch (sh_out (r_sh r)) k i) as [x|] eqn:Eo.
-  - destruct (last_touch_some _ _ _ _ Eo) as [c [Hc Ht]].
-    rewrite Forall_forall in Hcs. destruct (touch_cset_some c k i x (Hcs c Hc) Ht) as [v [-> ->]].
-    symmetry. apply Hsound; assumption.
-  - destruct (lookup k i s0) as [v|] eqn:El; [|reflexivity]. exfalso.
-    destruct (Hcover k i v Elt El) as [Hin|Hp]; [|eapply pending_done; eauto].
-    pose proof (last_touch_none _ _ _ Eo _ Hin) as Ht. rewrite touch_cset_same in Ht. discriminate.
-Qed.
-
-Theorem concurrent_partial s0 sched : wf s0 -> no_rename sched = true ->
-  let r := run_sched mk mi sched (run_init s0) in
-  sh_done (r_sh r) = true -> same_data (replay (newfile r) []) (r_live r).
-Proof.
-  intros Hwf Hnr r Hdone. apply (inv1_done s0); [|exact Hdone].
-  apply inv1_run; [exact Hnr | apply inv1_init; exact Hwf].
-Qed.
-
-Lemma no_rename_steps n : no_rename (repeat Step n) = true.
-Proof. induction n; cbn; auto. Qed.
-
-Lemma run_steps_live n : forall r, r_live (run_sched mk mi (repeat Step n) r) = r_live r /\
-                                  r_log (run_sched mk mi (repeat Step n) r) = r_log r.
-Proof. unfold run_sched. induction n as [|n IH]; intros r; cbn [repeat fold_left]; [auto|]. destruct (IH (do_ev mk mi r Step)) as [-> ->]. cbn. auto. Qed.
-
-Theorem quiescent s n : wf s ->
-  let r := run_sched mk mi (repeat Step n) (run_init s) in
-  sh_done (r_sh r) = true -> same_data (replay (newfile r) []) s.
-Proof.
-  intros Hwf r Hdone. pose proof (concurrent_partial s (repeat Step n) Hwf (no_rename_steps n) Hdone) as H.
-  fold r in H. unfold r in H at 2. rewrite (proj1 (run_steps_live n _)) in H. exact H.
-Qed.
 
 End Steps.
 
-(* ------------------------------------------------------------------ boolean checker for wf *)
-
-Fixpoint sortedb (l : list bytes) : bool :=
-  match l with [] => true | x :: r => forallb (bytes_ltb x) r && sortedb r end.
-
-Lemma sortedb_ok l : sortedb l = true -> sorted_keys l.
-Proof.
-  induction l as [|x r IH]; cbn; intros H; [constructor|].
-  apply andb_true_iff in H. destruct H as [H1 H2]. constructor; [apply IH; exact H2|].
-  rewrite Forall_forall. rewrite forallb_forall in H1. exact H1.
-Qed.
-
-Definition wfb (s : st) : bool := sortedb (keys s) && forallb (fun kc => sortedb (keys (snd kc))) s.
-
-Lemma wfb_ok s : wfb s = true -> wf s.
-Proof.
-  unfold wfb, wf. intros H. apply andb_true_iff in H. destruct H as [H1 H2]. split; [apply sortedb_ok; exact H1|].
-  rewrite Forall_forall. rewrite forallb_forall in H2. intros kc Hkc. apply sortedb_ok. apply H2; exact Hkc.
-Qed.
-
-(* ------------------------------------------------------------------ 6. T3: RENAME refutations *)
-
-Definition b1 (n : N) : bytes := [n].
-
-(* nine collections b..i and m, each {1 -> x} *)
-Definition s0_lost : st :=
-  map (fun n => (b1 n, [(b1 49, b1 120)])) [98; 99; 100; 101; 102; 103; 104; 105; 109]%N.
-
-(* first keys batch = b..i with nextkey = m; then m is renamed to a, before the cursor *)
-Definition sched_lost : list ev := [Step; W (CRename (b1 109) (b1 97))] ++ repeat Step 12.
-
-Theorem rename_refuted :
-  exists s0 sched, wf s0 /\ sh_done (r_sh (run_sched maxkeys maxids sched (run_init s0))) = true /\
-    exists k i, lookup k i (replay (newfile (run_sched maxkeys maxids sched (run_init s0))) []) <>
-                lookup k i (r_live (run_sched maxkeys maxids sched (run_init s0))).
-Proof.
-  exists s0_lost, sched_lost. split; [apply wfb_ok; vm_compute; reflexivity|].
-  split; [vm_compute; reflexivity|]. exists (b1 97), (b1 49). vm_compute. discriminate.
-Qed.
-
-(* A -> {1 -> x}; RENAME A B and SET A 1 y are logged before the first keys batch *)
-Definition s0_dup : st := [(b1 65, [(b1 49, b1 120)])].
-Definition sched_dup : list ev := [W (CRename (b1 65) (b1 66)); W (CSet (b1 65) (b1 49) (b1 121))] ++ repeat Step 6.
-
-Theorem rename_dup_refuted :
-  exists s0 sched, wf s0 /\ sh_done (r_sh (run_sched maxkeys maxids sched (run_init s0))) = true /\
-    exists k i, lookup k i (replay (newfile (run_sched maxkeys maxids sched (run_init s0))) []) <>
-                lookup k i (r_live (run_sched maxkeys maxids sched (run_init s0))).
-Proof.
-  exists s0_dup, sched_dup. split; [apply wfb_ok; vm_compute; reflexivity|].
-  split; [vm_compute; reflexivity|]. exists (b1 66), (b1 49). vm_compute. discriminate.
-Qed.
-
-(* ------------------------------------------------------------------ 7. T4: crash points *)
-
-Definition crash_hyp (fi : final_in) : Prop :=
-  same_data (replay (f_snap fi ++ f_slog fi) []) (replay (f_live fi ++ f_pend fi) []).
-
-Lemma same_data_refl a : same_data a a.
-Proof. intros k i; reflexivity. Qed.
-
-Theorem crash_points fi c : crash_hyp fi ->
-  let d := recover_dir (crash_at fi c) in
-  same_data d (replay (f_live fi) []) \/ same_data d (replay (f_live fi ++ f_pend fi) []).
-Proof.
-  intros H. destruct c; unfold crash_at, dir_start, recover_dir; cbn;
-    first [ left; apply same_data_refl | right; apply same_data_refl | right; exact H ].
-Qed.
-
-Theorem crash_orig_partial fi c : c <> CP_after_rename_bak -> crash_hyp fi ->
-  let d := recover_dir_orig (crash_at fi c) in
-  same_data d (replay (f_live fi) []) \/ same_data d (replay (f_live fi ++ f_pend fi) []).
-Proof.
-  intros Hc H. destruct c; try congruence; unfold crash_at, dir_start, recover_dir_orig; cbn;
-    first [ left; apply same_data_refl | right; apply same_data_refl | right; exact H ].
-Qed.
-
-Definition fi_small : final_in :=
-  mkFinal [CSet (b1 97) (b1 49) (b1 120)] [] [CSet (b1 97) (b1 49) (b1 120)] [].
-
-Theorem crash_orig_refuted :
-  exists fi, crash_hyp fi /\ (exists k i v, lookup k i (replay (f_live fi) []) = Some v) /\
-             recover_dir_orig (crash_at fi CP_after_rename_bak) = [].
-Proof.
-  exists fi_small. split; [intros k i; reflexivity|]. split; [|reflexivity].
-  exists (b1 97), (b1 49), (b1 120). vm_compute. reflexivity.
-Qed.
-
 (* ------------------------------------------------------------------ 5. T5: record order *)
-
-Definition rec_lt (a b : cmd) : Prop :=
-  match a, b with
-  | CSet k i _, CSet k' i' _ => bytes_ltb k k' = true \/ (k = k' /\ bytes_ltb i i' = true)
-  | _, _ => False
-  end.
-
-Definition rec_sorted (l : list cmd) : Prop := Forall is_cset l /\ StronglySorted rec_lt l.
 
 (* strictly below the frontier (k0, nid) / key strictly below kb / key at most kb *)
 Definition rec_below (k0 nid : bytes) (c : cmd) : Prop :=
-  match c with CSet k i _ => bytes_ltb k k0 = true \/ (k = k0 /\ bytes_ltb i nid = true) | _ => False end.
+  match c with CSet k i _ _ _ => bytes_ltb k k0 = true \/ (k = k0 /\ bytes_ltb i nid = true) | _ => False end.
 Definition rec_key_lt (kb : bytes) (c : cmd) : Prop :=
-  match c with CSet k _ _ => bytes_ltb k kb = true | _ => False end.
+  match c with CSet k _ _ _ _ => bytes_ltb k kb = true | _ => False end.
 Definition rec_key_le (kb : bytes) (c : cmd) : Prop :=
-  match c with CSet k _ _ => bytes_leb k kb = true | _ => False end.
+  match c with CSet k _ _ _ _ => bytes_leb k kb = true | _ => False end.
 
 Lemma below_le k0 nid c : rec_below k0 nid c -> rec_key_le k0 c.
 Proof. destruct c; cbn; try tauto. intros [H|[-> _]]; [apply bytes_ltb_leb; exact H | apply bytes_leb_refl]. Qed.
@@ -871,21 +1189,271 @@ Proof.
   destruct H as [_ [H _]]. exact H.
 Qed.
 
+End Front.
+
+(* ------------------------------------------------------------------ 4. T1 / T2 *)
+
+Definition nr_ev (e : ev) : bool := negb (is_rename e).
+
+(* y is the value the object (k,i) had at some moment of the run: after a prefix of the shrinklog *)
+Definition prefix_at (log : list cmd) (k i : bytes) (x0 y : option obj) : Prop :=
+  exists l1 l2, log = l1 ++ l2 /\ acts l1 k i x0 = y.
+
+Lemma prefix_at_snoc log c k i x0 y : prefix_at log k i x0 y -> prefix_at (log ++ [c]) k i x0 y.
+Proof. intros [l1 [l2 [-> H]]]. exists l1, (l2 ++ [c]). rewrite app_assoc. auto. Qed.
+
+Lemma prefix_at_now log k i x0 : prefix_at log k i x0 (acts log k i x0).
+Proof. exists log, []. rewrite app_nil_r. auto. Qed.
+
+Lemma rec_dec out k i : Forall recwf out ->
+  (exists o, In (rec_cmd k i o) out) \/ (forall o, ~ In (rec_cmd k i o) out).
+Proof.
+  induction 1 as [|c out Hc _ IH]; [right; intros o []|].
+  destruct Hc as [k' [i' [o' [-> _]]]]. destruct (samepair k i k' i') eqn:E.
+  - apply samepair_true in E. destruct E; subst. left. exists o'. left; reflexivity.
+  - destruct IH as [[o Ho]|Hno]; [left; exists o; right; exact Ho|]. right. intros o [Heq|Hin]; [|eapply Hno; exact Hin].
+    apply rec_cmd_inj in Heq. destruct Heq as [-> [-> _]]. rewrite samepair_refl in E. discriminate.
+Qed.
+
+Lemma request_noop r : r_shrinking r = true -> request r = r.
+Proof. intros H. unfold request. rewrite H. reflexivity. Qed.
+
+Lemma pending_done k i sh : sh_done sh = true -> ~ pending k i sh.
+Proof. unfold sh_done, pending. destruct (sh_pos sh); try discriminate. tauto. Qed.
+
+Section T1.
+Variables mk mi : nat.
+
+Record inv1 (s0 : st) (r : run) : Prop := {
+  i_shr : r_shrinking r = true;
+  i_wf : wf (r_live r);
+  i_nr : forallb nr_cmd (r_log r) = true;
+  i_live : forall k i, lookup k i (r_live r) = acts (r_log r) k i (lookup k i s0);
+  i_ok : forall k i, okl (r_log r) k i (lookup k i s0);
+  i_shape : shape (r_sh r);
+  i_recwf : Forall recwf (sh_out (r_sh r));
+  i_sound : forall k i o, In (rec_cmd k i o) (sh_out (r_sh r)) ->
+              prefix_at (r_log r) k i (lookup k i s0) (Some o);
+  i_cover : forall k i, (exists o, In (rec_cmd k i o) (sh_out (r_sh r))) \/ pending k i (r_sh r) \/
+              prefix_at (r_log r) k i (lookup k i s0) None
+}.
+
+Lemma inv1_init s0 : wf s0 -> inv1 s0 (run_init s0).
+Proof.
+  intros Hwf. constructor; cbn; auto.
+  - intros k i o [].
+  - intros k i. right; left. unfold pending; cbn. apply leb_nil.
+Qed.
+
+Lemma inv1_step s0 r e : nr_ev e = true -> inv1 s0 r -> inv1 s0 (do_ev mk mi r e).
+Proof.
+  intros Hnr [Hshr Hwf Hlog Hlive Hok Hsh Hrw Hsound Hcover]. destruct e as [c| |]; cbn [do_ev].
+  - (* writer *)
+    assert (Hc : nr_cmd c = true) by (destruct c; cbn in *; congruence).
+    pose proof (exec_wf (r_live r) c Hwf) as Hwf'.
+    pose proof (fun k i => exec_lookup (r_live r) c k i Hwf Hc) as Hel.
+    pose proof (fun k i => exec_unlogged (r_live r) c k i Hwf) as Hnl.
+    pose proof (fun k i => exec_logged_cond (r_live r) c k i) as Hlc.
+    destruct (exec (r_live r) c) as [s' o]. cbn [fst snd] in *. rewrite Hshr. cbn [andb].
+    destruct (logged o) eqn:Elog.
+    + constructor; cbn [r_live r_sh r_log r_shrinking]; auto.
+      * rewrite forallb_app, Hlog. cbn. rewrite Hc. reflexivity.
+      * intros k i. rewrite acts_app. cbn [acts]. rewrite Hel, Hlive. reflexivity.
+      * intros k i. apply okl_app. split; [apply Hok|]. cbn. split; [|exact I].
+        rewrite <- Hlive. apply Hlc; reflexivity.
+      * intros k i o' Hin. apply prefix_at_snoc, Hsound, Hin.
+      * intros k i. destruct (Hcover k i) as [H|[H|H]]; [left; exact H | right; left; exact H | right; right; apply prefix_at_snoc, H].
+    + constructor; cbn [r_live r_sh r_log r_shrinking]; auto.
+      intros k i. rewrite Hel, (Hnl k i eq_refl). apply Hlive.
+  - (* a locked section of the rewrite *)
+    destruct (step_out mk mi (r_live r) (r_sh r) Hwf Hsh) as [new [Hout Hnew]].
+    constructor; cbn [r_live r_sh r_log r_shrinking]; auto.
+    + apply step_shape; exact Hsh.
+    + rewrite Hout. apply Forall_app. split; [exact Hrw|]. rewrite Forall_forall. intros c Hc.
+      destruct (Hnew c Hc) as [k [i [v [-> Hl]]]]. exists k, i, v. split; [reflexivity | eapply wf_lookup; eauto].
+    + intros k i o Hin. rewrite Hout in Hin. apply in_app_iff in Hin. destruct Hin as [Hin|Hin]; [apply Hsound; exact Hin|].
+      destruct (Hnew _ Hin) as [k' [i' [v' [Heq Hl]]]]. apply rec_cmd_inj in Heq. destruct Heq as [<- [<- <-]].
+      rewrite Hlive in Hl. pose proof (prefix_at_now (r_log r) k i (lookup k i s0)) as P. rewrite Hl in P. exact P.
+    + intros k i. destruct (Hcover k i) as [[o Ho]|[Hp|Hp]].
+      * left. exists o. rewrite Hout. apply in_app_iff. left; exact Ho.
+      * destruct (lookup k i (r_live r)) as [v|] eqn:El.
+        -- destruct (step_cover mk mi (r_live r) (r_sh r) k i v Hwf Hsh El (or_intror Hp)) as [H|H];
+             [left; exists v; exact H | right; left; exact H].
+        -- right; right. rewrite Hlive in El. pose proof (prefix_at_now (r_log r) k i (lookup k i s0)) as P.
+           rewrite El in P. exact P.
+      * right; right; exact Hp.
+  - (* another AOFSHRINK request while the rewrite runs: refused *)
+    rewrite request_noop by exact Hshr. constructor; assumption.
+Qed.
+
+Lemma inv1_run s0 sched : forall r, forallb nr_ev sched = true -> inv1 s0 r -> inv1 s0 (run_sched mk mi sched r).
+Proof.
+  unfold run_sched. induction sched as [|e sched IH]; intros r Hnr Hinv; cbn; [exact Hinv|].
+  cbn in Hnr. apply andb_true_iff in Hnr. destruct Hnr as [He Hs]. apply IH; [exact Hs|]. apply inv1_step; assumption.
+Qed.
+
+Lemma inv1_done s0 r : wf s0 -> inv1 s0 r -> rec_sorted (sh_out (r_sh r)) -> sh_done (r_sh r) = true ->
+  same_data (replay (newfile r) []) (r_live r).
+Proof.
+  intros Hwf0 [_ Hwf Hlog Hlive Hok Hsh Hrw Hsound Hcover] Hrs Hdone k i.
+  unfold newfile. rewrite replay_lookup; [|exact wf_nil|rewrite forallb_app, Hlog, (cset_nr _ (proj1 Hrs)); reflexivity].
+  rewrite lookup_nil, acts_app, Hlive. change (@None val) with (@None obj).
+  assert (Hfs : fsorted (lookup k i s0)).
+  { unfold fsorted. destruct (lookup k i s0) eqn:E; [exact (wf_lookup _ _ _ _ Hwf0 E) | exact I]. }
+  assert (Hkey : forall y, prefix_at (r_log r) k i (lookup k i s0) y ->
+                 acts (r_log r) k i y = acts (r_log r) k i (lookup k i s0)).
+  { intros y [l1 [l2 [Hl Hy]]]. specialize (Hok k i). rewrite Hl in *. rewrite <- Hy.
+    apply log_idempotent; assumption. }
+  destruct (rec_dec (sh_out (r_sh r)) k i Hrw) as [[o Ho]|Hno].
+  - rewrite (snap_value_some _ _ _ _ Hrs Hrw Ho). apply Hkey, Hsound, Ho.
+  - rewrite (snap_value_none _ _ _ Hrs Hrw Hno). apply Hkey.
+    destruct (Hcover k i) as [[o Ho]|[Hp|Hp]]; [exfalso; eapply Hno; exact Ho | exfalso; eapply pending_done; eauto | exact Hp].
+Qed.
+
+Theorem concurrent_partial s0 sched : wf s0 -> no_rename sched = true ->
+  let r := run_sched mk mi sched (run_init s0) in
+  sh_done (r_sh r) = true -> same_data (replay (newfile r) []) (r_live r).
+Proof.
+  intros Hwf Hnr r Hdone. apply (inv1_done s0); [exact Hwf| |apply batches_never_repeat; exact Hwf|exact Hdone].
+  apply inv1_run; [exact Hnr | apply inv1_init; exact Hwf].
+Qed.
+
+Lemma no_rename_steps n : no_rename (repeat Step n) = true.
+Proof. induction n; cbn; auto. Qed.
+
+Lemma run_steps_live n : forall r, r_live (run_sched mk mi (repeat Step n) r) = r_live r /\
+                                  r_log (run_sched mk mi (repeat Step n) r) = r_log r.
+Proof. unfold run_sched. induction n as [|n IH]; intros r; cbn [repeat fold_left]; [auto|]. destruct (IH (do_ev mk mi r Step)) as [-> ->]. cbn. auto. Qed.
+
+Theorem quiescent s n : wf s ->
+  let r := run_sched mk mi (repeat Step n) (run_init s) in
+  sh_done (r_sh r) = true -> same_data (replay (newfile r) []) s.
+Proof.
+  intros Hwf r Hdone. pose proof (concurrent_partial s (repeat Step n) Hwf (no_rename_steps n) Hdone) as H.
+  fold r in H. unfold r in H at 2. rewrite (proj1 (run_steps_live n _)) in H. exact H.
+Qed.
+
+(* quiescent: the records are exactly the objects *)
+Lemma quiescent_records s n : wf s ->
+  let r := run_sched mk mi (repeat Step n) (run_init s) in
+  sh_done (r_sh r) = true ->
+  Forall recwf (sh_out (r_sh r)) /\ forall k i v, In (rec_cmd k i v) (sh_out (r_sh r)) <-> lookup k i s = Some v.
+Proof.
+  intros Hwf r Hdone.
+  assert (Hinv : inv1 s r) by (apply inv1_run; [apply no_rename_steps | apply inv1_init; exact Hwf]).
+  assert (Hlog : r_log r = []) by (unfold r; rewrite (proj2 (run_steps_live n _)); reflexivity).
+  destruct Hinv as [_ _ _ _ _ _ Hrw Hsound Hcover]. rewrite Hlog in *. split; [exact Hrw|].
+  assert (Hnil : forall k i y, prefix_at [] k i (lookup k i s) y -> lookup k i s = y).
+  { intros k i y [l1 [l2 [Hl Hy]]]. symmetry in Hl. apply app_eq_nil in Hl. destruct Hl as [E1 E2]. rewrite E1 in Hy. exact Hy. }
+  intros k i v. split.
+  - intros Hin. apply Hnil, Hsound, Hin.
+  - intros Hl. destruct (Hcover k i) as [[o Ho]|[Hp|Hp]].
+    + pose proof (Hnil _ _ _ (Hsound _ _ _ Ho)) as E. rewrite Hl in E. inversion E; subst. exact Ho.
+    + exfalso. eapply pending_done; eauto.
+    + apply Hnil in Hp. congruence.
+Qed.
+
 Theorem batches_cover s n : wf s ->
   let r := run_sched mk mi (repeat Step n) (run_init s) in
   sh_done (r_sh r) = true ->
-  (forall k i v, In (CSet k i v) (sh_out (r_sh r)) <-> lookup k i s = Some v) /\ rec_sorted (sh_out (r_sh r)).
+  (forall k i v, In (rec_cmd k i v) (sh_out (r_sh r)) <-> lookup k i s = Some v) /\ rec_sorted (sh_out (r_sh r)).
 Proof.
-  intros Hwf r Hdone. split; [|apply batches_never_repeat; exact Hwf].
-  assert (Hinv : inv1 s r) by (apply inv1_run; [apply no_rename_steps | apply inv1_init; exact Hwf]).
-  assert (Hlog : r_log r = []) by (unfold r; rewrite (proj2 (run_steps_live mk mi n _)); reflexivity).
-  destruct Hinv as [_ _ _ _ _ _ Hsound Hcover]. rewrite Hlog in *. intros k i v. split.
-  - apply Hsound. reflexivity.
-  - intros Hl. destruct (Hcover k i v eq_refl Hl) as [Hin|Hp]; [exact Hin|].
-    exfalso. eapply pending_done; eauto.
+  intros Hwf r Hdone. split; [apply (quiescent_records s n Hwf Hdone) | apply batches_never_repeat; exact Hwf].
 Qed.
 
-End Front.
+End T1.
+
+(* ------------------------------------------------------------------ boolean checker for wf *)
+
+Fixpoint sortedb (l : list bytes) : bool :=
+  match l with [] => true | x :: r => forallb (bytes_ltb x) r && sortedb r end.
+
+Lemma sortedb_ok l : sortedb l = true -> sorted_keys l.
+Proof.
+  induction l as [|x r IH]; cbn; intros H; [constructor|].
+  apply andb_true_iff in H. destruct H as [H1 H2]. constructor; [apply IH; exact H2|].
+  rewrite Forall_forall. rewrite forallb_forall in H1. exact H1.
+Qed.
+
+Definition wfb (s : st) : bool :=
+  sortedb (keys s) &&
+  forallb (fun kc => sortedb (keys (snd kc)) && forallb (fun io => sortedb (keys (o_fields (snd io)))) (snd kc)) s.
+
+Lemma wfb_ok s : wfb s = true -> wf s.
+Proof.
+  unfold wfb, wf. intros H. apply andb_true_iff in H. destruct H as [H1 H2]. split; [apply sortedb_ok; exact H1|].
+  rewrite Forall_forall. rewrite forallb_forall in H2. intros kc Hkc. specialize (H2 kc Hkc).
+  apply andb_true_iff in H2. destruct H2 as [H2 H3]. split; [apply sortedb_ok; exact H2|].
+  rewrite Forall_forall. rewrite forallb_forall in H3. intros io Hio. apply sortedb_ok. apply H3; exact Hio.
+Qed.
+
+(* ------------------------------------------------------------------ 6. T3: RENAME refutations *)
+
+Definition b1 (n : N) : bytes := [n].
+
+(* nine collections b..i and m, each {1 -> x} *)
+Definition s0_lost : st :=
+  map (fun n => (b1 n, [(b1 49, mkObj (b1 120) [] false)])) [98; 99; 100; 101; 102; 103; 104; 105; 109]%N.
+
+(* first keys batch = b..i with nextkey = m; then m is renamed to a, before the cursor *)
+Definition sched_lost : list ev := [Step; W (CRename (b1 109) (b1 97))] ++ repeat Step 12.
+
+Theorem rename_refuted :
+  exists s0 sched, wf s0 /\ sh_done (r_sh (run_sched maxkeys maxids sched (run_init s0))) = true /\
+    exists k i, lookup k i (replay (newfile (run_sched maxkeys maxids sched (run_init s0))) []) <>
+                lookup k i (r_live (run_sched maxkeys maxids sched (run_init s0))).
+Proof.
+  exists s0_lost, sched_lost. split; [apply wfb_ok; vm_compute; reflexivity|].
+  split; [vm_compute; reflexivity|]. exists (b1 97), (b1 49). vm_compute. discriminate.
+Qed.
+
+(* A -> {1 -> x}; RENAME A B and SET A 1 y are logged before the first keys batch *)
+Definition s0_dup : st := [(b1 65, [(b1 49, mkObj (b1 120) [] false)])].
+Definition sched_dup : list ev := [W (CRename (b1 65) (b1 66)); W (CSet (b1 65) (b1 49) [] false (b1 121))] ++ repeat Step 6.
+
+Theorem rename_dup_refuted :
+  exists s0 sched, wf s0 /\ sh_done (r_sh (run_sched maxkeys maxids sched (run_init s0))) = true /\
+    exists k i, lookup k i (replay (newfile (run_sched maxkeys maxids sched (run_init s0))) []) <>
+                lookup k i (r_live (run_sched maxkeys maxids sched (run_init s0))).
+Proof.
+  exists s0_dup, sched_dup. split; [apply wfb_ok; vm_compute; reflexivity|].
+  split; [vm_compute; reflexivity|]. exists (b1 66), (b1 49). vm_compute. discriminate.
+Qed.
+
+(* ------------------------------------------------------------------ 7. T4: crash points *)
+
+Definition crash_hyp (fi : final_in) : Prop :=
+  same_data (replay (f_snap fi ++ f_slog fi) []) (replay (f_live fi ++ f_pend fi) []).
+
+Lemma same_data_refl a : same_data a a.
+Proof. intros k i; reflexivity. Qed.
+
+Theorem crash_points fi c : crash_hyp fi ->
+  let d := recover_dir (crash_at fi c) in
+  same_data d (replay (f_live fi) []) \/ same_data d (replay (f_live fi ++ f_pend fi) []).
+Proof.
+  intros H. destruct c; unfold crash_at, dir_start, recover_dir; cbn;
+    first [ left; apply same_data_refl | right; apply same_data_refl | right; exact H ].
+Qed.
+
+Theorem crash_orig_partial fi c : c <> CP_after_rename_bak -> crash_hyp fi ->
+  let d := recover_dir_orig (crash_at fi c) in
+  same_data d (replay (f_live fi) []) \/ same_data d (replay (f_live fi ++ f_pend fi) []).
+Proof.
+  intros Hc H. destruct c; try congruence; unfold crash_at, dir_start, recover_dir_orig; cbn;
+    first [ left; apply same_data_refl | right; apply same_data_refl | right; exact H ].
+Qed.
+
+Definition fi_small : final_in :=
+  mkFinal [CSet (b1 97) (b1 49) [] false (b1 120)] [] [CSet (b1 97) (b1 49) [] false (b1 120)] [].
+
+Theorem crash_orig_refuted :
+  exists fi, crash_hyp fi /\ (exists k i v, lookup k i (replay (f_live fi) []) = Some v) /\
+             recover_dir_orig (crash_at fi CP_after_rename_bak) = [].
+Proof.
+  exists fi_small. split; [intros k i; reflexivity|]. split; [|reflexivity].
+  exists (b1 97), (b1 49), (mkObj (b1 120) [] false). vm_compute. reflexivity.
+Qed.
 
 (* ------------------------------------------------------------------ 8. T6: termination (quiescent) *)
 
@@ -1023,39 +1591,6 @@ Proof. apply (terminates_from (mu shrink_init)); [lia|]. unfold shape2; cbn. aut
 
 End Term.
 
-(* ------------------------------------------------------------------ example data (used by Props/C09.v) *)
-
-(* n objects "00", "01", ... (two decimal digits, so the ids are sorted for n <= 100) *)
-Definition ex_ids (n : nat) : coll :=
-  map (fun i => ([N.of_nat (48 + i / 10); N.of_nat (48 + i mod 10)], b1 120)) (seq 0 n).
-
-(* ten collections "a".."j"; "d" has 40 objects (two ids batches), the others 2 *)
-Definition ex_data : st :=
-  map (fun j => (b1 (N.of_nat (97 + j)), if Nat.eqb j 3 then ex_ids 40 else ex_ids 2)) (seq 0 10).
-
-Definition ex_id (i : nat) : bytes := [N.of_nat (48 + i / 10); N.of_nat (48 + i mod 10)].
-
-(* writers between the locked sections: SET into a collection already snapshotted, into the one
-   being snapshotted, into one not yet reached, a new collection behind and ahead of the cursor,
-   DEL, DROP; no RENAME *)
-Definition ex_sched : list ev :=
-  [Step; W (CSet (b1 97) (ex_id 7) (b1 121)); Step; Step;
-   W (CSet (b1 98) (ex_id 0) (b1 122)); W (CDel (b1 100) (ex_id 5)); W (CDel (b1 100) (ex_id 99));
-   Step; Step; W (CSet (b1 100) (ex_id 35) (b1 121)); W (CDrop (b1 102)); W (CDrop (b1 120));
-   W (CSet [96%N] (ex_id 1) (b1 121)); W (CSet (b1 122) (ex_id 1) (b1 121)); Step; W (CDel (b1 106) (ex_id 0));
-   W (CDel (b1 106) (ex_id 1))] ++ repeat Step 40.
-
-Definition ex_sched_flush : list ev :=
-  [Step; Step; Step; W (CSet (b1 97) (ex_id 7) (b1 121)); W CFlushdb; Step;
-   W (CSet (b1 99) (ex_id 7) (b1 121)); W (CSet (b1 122) (ex_id 7) (b1 121))] ++ repeat Step 40.
-
-(* the final section: live file with a deleted object, one unflushed command, its snapshot and shrinklog *)
-Definition ex_final : final_in :=
-  mkFinal [CSet (b1 97) (ex_id 1) (b1 120); CSet (b1 97) (ex_id 2) (b1 121); CDel (b1 97) (ex_id 1)]
-          [CSet (b1 98) (ex_id 1) (b1 122)]
-          [CSet (b1 97) (ex_id 2) (b1 121)]
-          [CSet (b1 98) (ex_id 1) (b1 122)].
-
 (* ------------------------------------------------------------------ the quiescent snapshot is the flattened dataset *)
 
 Lemma SS_ext {A} (R : A -> A -> Prop) :
@@ -1096,16 +1631,16 @@ Proof.
   rewrite map_app, IH. f_equal. unfold recs. rewrite map_map. reflexivity.
 Qed.
 
-Lemma in_snap c s : In c (snap s) -> exists k col i v, In (k, col) s /\ In (i, v) col /\ c = CSet k i v.
+Lemma in_snap c s : In c (snap s) -> exists k col i v, In (k, col) s /\ In (i, v) col /\ c = rec_cmd k i v.
 Proof.
   unfold snap. intros H. apply in_flat_map in H. destruct H as [[k col] [Hkc Hc]]. cbn in Hc.
   apply in_recs in Hc. destruct Hc as [i [v [-> Hiv]]]. exists k, col, i, v. auto.
 Qed.
 
-Lemma snap_in s k i v : wf s -> (In (CSet k i v) (snap s) <-> lookup k i s = Some v).
+Lemma snap_in s k i v : wf s -> (In (rec_cmd k i v) (snap s) <-> lookup k i s = Some v).
 Proof.
   intros Hwf. split.
-  - intros H. apply in_snap in H. destruct H as [k' [col [i' [v' [Hkc [Hiv Heq]]]]]]. inversion Heq; subst k' i' v'.
+  - intros H. apply in_snap in H. destruct H as [k' [col [i' [v' [Hkc [Hiv Heq]]]]]]. apply rec_cmd_inj in Heq. destruct Heq as [<- [<- <-]].
     assert (Hg : get k s = Some col) by (apply In_get; [apply Hwf | exact Hkc]).
     unfold lookup. rewrite Hg. apply In_get; [eapply wf_get; eauto | exact Hiv].
   - intros H. destruct (lookup_some _ _ _ _ H) as [col [Hg Hi]]. unfold snap. apply in_flat_map.
@@ -1117,8 +1652,8 @@ Proof.
   intros Hwf. split.
   - rewrite Forall_forall. intros c Hc. apply in_snap in Hc. destruct Hc as [k [col [i [v [_ [_ ->]]]]]]. exact I.
   - destruct Hwf as [Hs HF]. induction s as [|[k col] r IH]; cbn; [constructor|].
-    pose proof (msorted_inv _ _ _ Hs) as [Hr Hall]. inversion HF; subst.
-    apply SS_app; [apply recs_sorted; assumption | apply IH; assumption|].
+    pose proof (msorted_inv _ _ _ Hs) as [Hr Hall]. inversion HF as [|? ? Hhd Htl]; subst. destruct Hhd as [Hhd _].
+    apply SS_app; [apply recs_sorted; exact Hhd | apply IH; assumption|].
     intros x y Hx Hy. apply in_recs in Hx. destruct Hx as [i [v [-> _]]].
     apply in_snap in Hy. destruct Hy as [k' [col' [i' [v' [Hkc [_ ->]]]]]]. cbn. left.
     rewrite Forall_forall in Hall. apply Hall. apply (in_map fst) in Hkc. exact Hkc.
@@ -1129,10 +1664,11 @@ Theorem quiescent_snapshot mk mi s n : wf s ->
   sh_done (r_sh r) = true -> sh_out (r_sh r) = map rec_of (flatten s).
 Proof.
   intros Hwf r Hdone. rewrite snap_flatten.
-  destruct (batches_cover mk mi s n Hwf Hdone) as [Hin [Hcs Hss]]. fold r in Hin, Hcs, Hss.
+  destruct (quiescent_records mk mi s n Hwf Hdone) as [Hrw Hin]. fold r in Hrw, Hin.
+  destruct (batches_never_repeat mk mi s (repeat Step n) Hwf) as [_ Hss]. fold r in Hss.
   apply (SS_ext rec_lt rec_lt_irrefl rec_lt_trans); [exact Hss | apply snap_sorted; exact Hwf|].
   intros x. split; intros Hx.
-  - rewrite Forall_forall in Hcs. pose proof (Hcs x Hx) as Hc. destruct x; cbn in Hc; try contradiction.
+  - rewrite Forall_forall in Hrw. destruct (Hrw x Hx) as [k [i [o [-> _]]]].
     apply snap_in; [exact Hwf|]. apply Hin; exact Hx.
   - destruct (in_snap _ _ Hx) as [k [col [i [v [_ [_ ->]]]]]]. apply Hin. apply snap_in; assumption.
 Qed.
@@ -1162,13 +1698,6 @@ Theorem request_lifecycle s0 (mk mi : nat) sched :
   r_shrinking r = true /\ request (end_rewrite r) = run_init (r_live r).
 Proof. intros r. split; [apply shrinking_run; reflexivity | reflexivity]. Qed.
 
-(* ex_sched with AOFSHRINK requests: before the first section's successor, right after a writer, at the end *)
-Definition ex_sched_req : list ev :=
-  [Step; Req; W (CSet (b1 97) (ex_id 7) (b1 121)); Req; Step; Step;
-   W (CSet (b1 98) (ex_id 0) (b1 122)); W (CDel (b1 100) (ex_id 5)); W (CDel (b1 100) (ex_id 99));
-   Step; Req; Req; Step; W (CSet (b1 100) (ex_id 35) (b1 121)); W (CDrop (b1 102)); W (CDrop (b1 120));
-   W (CSet [96%N] (ex_id 1) (b1 121)); W (CSet (b1 122) (ex_id 1) (b1 121)); Step; W (CDel (b1 106) (ex_id 0));
-   W (CDel (b1 106) (ex_id 1)); Req] ++ repeat Step 40 ++ [Req].
 
 (* ------------------------------------------------------------------ leftovers of an interrupted rewrite *)
 
@@ -1195,7 +1724,659 @@ Theorem two_rewrites fi1 c fi2 : d_live (startup_dir (crash_at fi1 c)) = Some (f
   recover_dir (rewrite_dir (startup_dir (crash_at fi1 c)) fi2) = replay (f_snap fi2 ++ f_slog fi2) [].
 Proof. intros H. rewrite (rewrite_ignores_leftovers _ _ H). reflexivity. Qed.
 
+
+(* ------------------------------------------------------------------ 12. example data (used by Props/C09.v) *)
+
+Definition ex_id (i : nat) : bytes := [N.of_nat (48 + i / 10); N.of_nat (48 + i mod 10)].
+
+(* object number i: three fields a b c / one field f / none; every fourth one has a deadline *)
+Definition ex_obj (i : nat) : obj :=
+  mkObj (b1 120)
+        (if Nat.eqb (i mod 3) 0 then [(b1 97, b1 49); (b1 98, b1 50); (b1 99, b1 51)]
+         else if Nat.eqb (i mod 3) 1 then [(b1 102, b1 55)] else [])
+        (Nat.eqb (i mod 4) 1).
+
+(* n objects "00", "01", ... (two decimal digits, so the ids are sorted for n <= 100) *)
+Definition ex_ids (n : nat) : coll := map (fun i => (ex_id i, ex_obj i)) (seq 0 n).
+
+(* ten collections "a".."j"; "d" has 40 objects (two ids batches), the others 2 *)
+Definition ex_data : st :=
+  map (fun j => (b1 (N.of_nat (97 + j)), if Nat.eqb j 3 then ex_ids 40 else ex_ids 2)) (seq 0 10).
+
+(* writers between the locked sections, on objects behind, at and ahead of the cursor; no RENAME.
+   Some of them are not `Updated` (FSET without change, PERSIST without deadline, missing key / id,
+   PDEL without match) and therefore not logged. *)
+Definition ex_sched : list ev :=
+  [Step;
+   W (CSet (b1 97) (ex_id 7) [(b1 102, Some (b1 57))] true (b1 121));
+   Step; Step;
+   W (CSet (b1 98) (ex_id 0) [(b1 98, None); (b1 122, Some (b1 57))] false (b1 122));
+   W (CFset (b1 97) (ex_id 1) [(b1 102, Some (b1 56)); (b1 103, Some (b1 49))]);
+   W (CFset (b1 97) (ex_id 1) [(b1 102, Some (b1 56))]);
+   W (CExpire (b1 98) (ex_id 1)); W (CPersist (b1 97) (ex_id 1)); W (CPersist (b1 97) (ex_id 0));
+   W (CDel (b1 100) (ex_id 5)); W (CDel (b1 100) (ex_id 99));
+   W (CFset (b1 100) (ex_id 33) [(b1 97, None)]); W (CFset (b1 100) (ex_id 34) [(b1 97, None)]);
+   W (CFset (b1 120) (ex_id 0) [(b1 97, Some (b1 49))]); W (CFset (b1 97) (ex_id 50) [(b1 97, Some (b1 49))]);
+   Step; Step;
+   W (CSet (b1 100) (ex_id 35) [] false (b1 121)); W (CExpire (b1 100) (ex_id 2));
+   W (CPdel (b1 100) (b1 50)); W (CPdel (b1 101) (b1 48)); W (CPersist (b1 100) (ex_id 37));
+   W (CDrop (b1 102)); W (CDrop (b1 120));
+   W (CSet [96%N] (ex_id 1) [(b1 97, Some (b1 49))] false (b1 121));
+   W (CSet (b1 122) (ex_id 1) [] true (b1 121));
+   Step; W (CDel (b1 106) (ex_id 0)); W (CDel (b1 106) (ex_id 1)); W (CPdel (b1 100) (b1 57));
+   W (CFset (b1 100) (ex_id 39) [(b1 99, Some (b1 57)); (b1 97, None)])] ++ repeat Step 40.
+
+Definition ex_sched_flush : list ev :=
+  [Step; Step; Step; W (CSet (b1 97) (ex_id 7) [] false (b1 121)); W CFlushdb; Step;
+   W (CSet (b1 99) (ex_id 7) [(b1 97, Some (b1 49))] true (b1 121));
+   W (CFset (b1 99) (ex_id 7) [(b1 98, Some (b1 50))]);
+   W (CSet (b1 122) (ex_id 7) [] false (b1 121))] ++ repeat Step 40.
+
+(* ex_sched with AOFSHRINK requests: at the start, right after each of the first writers, twice in a
+   row in the middle, at the very end *)
+Definition ex_sched_req : list ev :=
+  [Req] ++ flat_map (fun e => match e with W c => [W c; Req] | _ => [e] end) (firstn 12 ex_sched)
+        ++ [Req; Req] ++ skipn 12 ex_sched ++ [Req].
+
+(* the final section: live file with a deleted object, one unflushed command, its snapshot and shrinklog *)
+Definition ex_final : final_in :=
+  mkFinal [CSet (b1 97) (ex_id 1) [(b1 102, Some (b1 55))] true (b1 120);
+           CSet (b1 97) (ex_id 2) [] false (b1 121); CDel (b1 97) (ex_id 1)]
+          [CSet (b1 98) (ex_id 1) [] false (b1 122)]
+          [CSet (b1 97) (ex_id 2) [] false (b1 121)]
+          [CSet (b1 98) (ex_id 1) [] false (b1 122)].
+
 (* second rewrite after ex_final died at CP_after_sync: the live file is ex_final's flushed one, an
    unflushed DEL, and a snapshot of ONE record (the leftover -shrink file has two) *)
 Definition ex_final2 : final_in :=
-  mkFinal (f_live ex_final ++ f_pend ex_final) [CDel (b1 98) (ex_id 1)] [CSet (b1 97) (ex_id 2) (b1 121)] [].
+  mkFinal (f_live ex_final ++ f_pend ex_final) [CDel (b1 98) (ex_id 1)] [CSet (b1 97) (ex_id 2) [] false (b1 121)] [].
+
+(* ------------------------------------------------------------------ the shrinklog of a run, dataset level *)
+
+Theorem log_replay_idempotent mk mi s0 sched l1 l2 : wf s0 -> no_rename sched = true ->
+  let r := run_sched mk mi sched (run_init s0) in
+  r_log r = l1 ++ l2 ->
+  same_data (replay (r_log r) (replay l1 s0)) (r_live r).
+Proof.
+  intros Hwf Hnr r Hl k i.
+  assert (Hinv : inv1 s0 r) by (apply inv1_run; [exact Hnr | apply inv1_init; exact Hwf]).
+  destruct Hinv as [_ _ Hlog Hlive Hok _ _ _ _].
+  assert (Hl1 : forallb nr_cmd l1 = true).
+  { rewrite Hl, forallb_app in Hlog. apply andb_true_iff in Hlog. tauto. }
+  rewrite replay_lookup; [|apply replay_wf; exact Hwf|exact Hlog].
+  rewrite (replay_lookup l1) by assumption. rewrite Hlive. specialize (Hok k i). rewrite Hl in *.
+  apply log_idempotent; [|exact Hok].
+  unfold fsorted. destruct (lookup k i s0) eqn:E; [exact (wf_lookup _ _ _ _ Hwf E) | exact I].
+Qed.
+
+(* ------------------------------------------------------------------ 10. hooks and channels *)
+
+Definition kcons (kind : bytes -> bool) (r : hreg) : Prop := forall n p, get n r = Some p -> h_chan p = kind n.
+Definition hcmd_ok (kind : bytes -> bool) (c : hcmd) : Prop :=
+  match c with HSet n h => h_chan h = kind n | _ => True end.
+
+(* with one kind per name every command is, per name, a constant or a no-op *)
+Definition htouch (kind : bytes -> bool) (c : hcmd) (n : bytes) : option (option hook) :=
+  match c with
+  | HSet n' h => if bytes_eqb n n' then Some (Some h) else None
+  | HDel n' c => if bytes_eqb n n' && Bool.eqb (kind n) c then Some None else None
+  | HPdel pat c => if pmatch pat n && Bool.eqb (kind n) c then Some None else None
+  | HFlush => Some None
+  end.
+
+Fixpoint hlast (kind : bytes -> bool) (l : list hcmd) (n : bytes) : option (option hook) :=
+  match l with
+  | [] => None
+  | c :: r => match hlast kind r n with Some x => Some x | None => htouch kind c n end
+  end.
+
+Lemma hlast_app kind a b n :
+  hlast kind (a ++ b) n = match hlast kind b n with Some x => Some x | None => hlast kind a n end.
+Proof.
+  induction a as [|c a IH]; cbn.
+  - destruct (hlast kind b n); reflexivity.
+  - rewrite IH. destruct (hlast kind b n); reflexivity.
+Qed.
+
+Lemma hlast_none kind l n : hlast kind l n = None -> forall c, In c l -> htouch kind c n = None.
+Proof.
+  induction l as [|c l IH]; cbn; [tauto|]. destruct (hlast kind l n); [discriminate|].
+  intros H c' [<-|Hc]; [exact H | apply IH; [reflexivity | exact Hc]].
+Qed.
+
+Lemma hlast_some kind l n x : hlast kind l n = Some x -> exists c, In c l /\ htouch kind c n = Some x.
+Proof.
+  induction l as [|c l IH]; cbn; [discriminate|]. destruct (hlast kind l n) eqn:E.
+  - intros H; inversion H; subst. destruct (IH eq_refl) as [c' [H1 H2]]. exists c'. auto.
+  - intros H. exists c. auto.
+Qed.
+
+Lemma get_filter_sorted {V} (f : bytes * V -> bool) (m : smap V) n : msorted m ->
+  get n (filter f m) = match get n m with Some v => if f (n, v) then Some v else None | None => None end.
+Proof.
+  induction m as [|[k v] r IH]; intros Hs; cbn; [reflexivity|].
+  pose proof (msorted_inv _ _ _ Hs) as [Hr Hall]. destruct (bytes_eqb n k) eqn:E.
+  - apply bytes_eqb_eq in E; subst k. destruct (f (n, v)); cbn; [rewrite bytes_eqb_refl; reflexivity|].
+    apply get_not_in. intros Hin. apply keys_filter_in in Hin. rewrite Forall_forall in Hall.
+    apply Hall in Hin. rewrite ltb_irrefl in Hin. discriminate.
+  - destruct (f (k, v)); cbn; [rewrite E|]; apply IH; exact Hr.
+Qed.
+
+Lemma hook_same_eq p h : hook_same p h = true -> h_chan p = h_chan h -> p = h.
+Proof.
+  destruct p as [c1 b1' e1], h as [c2 b2 e2]. unfold hook_same. cbn. intros H Hc.
+  apply andb_true_iff in H. destruct H as [H H3]. apply andb_true_iff in H. destruct H as [H1 H2].
+  apply bytes_eqb_eq in H1. destruct e1, e2; try discriminate. subst. reflexivity.
+Qed.
+
+Lemma hexec_spec kind r c : msorted r -> kcons kind r -> hcmd_ok kind c ->
+  snd (hexec r c) <> HFatal /\ msorted (fst (hexec r c)) /\ kcons kind (fst (hexec r c)) /\
+  forall n, get n (fst (hexec r c)) = match htouch kind c n with Some y => y | None => get n r end.
+Proof.
+  intros Hs Hk Hc. destruct c as [n' h|n' c|pat c|]; cbn [hexec htouch].
+  - (* SETHOOK / SETCHAN *)
+    cbn in Hc.
+    assert (Hset : msorted (set n' h r) /\ kcons kind (set n' h r) /\
+                   forall n, get n (set n' h r) = if bytes_eqb n n' then Some h else get n r).
+    { split; [apply msorted_set; exact Hs|]. split.
+      - intros n p. destruct (bytes_eqb n n') eqn:E.
+        + apply bytes_eqb_eq in E; subst. rewrite get_set_same. intros H; inversion H; subst. exact Hc.
+        + apply eqb_false_neq in E. rewrite get_set_other by exact E. apply Hk.
+      - intros n. destruct (bytes_eqb n n') eqn:E.
+        + apply bytes_eqb_eq in E; subst. apply get_set_same.
+        + apply eqb_false_neq in E. apply get_set_other; exact E. }
+    destruct Hset as [H1 [H2 H3]].
+    assert (Hfmt : forall n, (if bytes_eqb n n' then Some h else get n r) =
+                             match (if bytes_eqb n n' then Some (Some h) else None) with Some y => y | None => get n r end)
+      by (intros n; destruct (bytes_eqb n n'); reflexivity).
+    destruct (get n' r) as [p|] eqn:E.
+    + rewrite (Hk _ _ E), Hc, Bool.eqb_reflx. cbn [negb]. destruct (hook_same p h) eqn:Es; cbn [fst snd].
+      * split; [discriminate|]. split; [exact Hs|]. split; [exact Hk|]. intros n.
+        destruct (bytes_eqb n n') eqn:En; [|reflexivity]. apply bytes_eqb_eq in En; subst.
+        rewrite E. f_equal. apply hook_same_eq; [exact Es|]. rewrite (Hk _ _ E), Hc. reflexivity.
+      * split; [discriminate|]. split; [exact H1|]. split; [exact H2|]. intros n. rewrite H3. apply Hfmt.
+    + cbn [fst snd]. split; [discriminate|]. split; [exact H1|]. split; [exact H2|]. intros n. rewrite H3. apply Hfmt.
+  - (* DELHOOK / DELCHAN *)
+    destruct (get n' r) as [p|] eqn:E.
+    + rewrite (Hk _ _ E). destruct (Bool.eqb (kind n') c) eqn:Ec; cbn [fst snd].
+      * split; [discriminate|]. split; [apply msorted_del; exact Hs|]. split.
+        -- intros n q. destruct (bytes_eqb n n') eqn:En.
+           ++ apply bytes_eqb_eq in En; subst. rewrite get_del_same by exact Hs. discriminate.
+           ++ apply eqb_false_neq in En. rewrite get_del_other by exact En. apply Hk.
+        -- intros n. destruct (bytes_eqb n n') eqn:En; cbn [andb].
+           ++ apply bytes_eqb_eq in En; subst. rewrite Ec. apply get_del_same; exact Hs.
+           ++ apply eqb_false_neq in En. apply get_del_other; exact En.
+      * split; [discriminate|]. split; [exact Hs|]. split; [exact Hk|]. intros n.
+        destruct (bytes_eqb n n') eqn:En; cbn [andb]; [|reflexivity]. apply bytes_eqb_eq in En; subst. rewrite Ec. reflexivity.
+    + cbn [fst snd]. split; [discriminate|]. split; [exact Hs|]. split; [exact Hk|]. intros n.
+      destruct (bytes_eqb n n') eqn:En; cbn [andb]; [|reflexivity]. apply bytes_eqb_eq in En; subst.
+      destruct (Bool.eqb (kind n') c); [exact E | reflexivity].
+  - (* PDELHOOK / PDELCHAN *)
+    cbv zeta.
+    set (f := fun nh : bytes * hook => negb (pmatch pat (fst nh) && Bool.eqb (h_chan (snd nh)) c)).
+    assert (Hg : forall n, get n (filter f r) = match (if pmatch pat n && Bool.eqb (kind n) c then Some None else None) with
+                                                 | Some y => y | None => get n r end).
+    { intros n. rewrite get_filter_sorted by exact Hs. destruct (get n r) as [p|] eqn:E.
+      - unfold f. cbn [fst snd]. rewrite (Hk _ _ E). destruct (pmatch pat n && Bool.eqb (kind n) c); reflexivity.
+      - destruct (pmatch pat n && Bool.eqb (kind n) c); reflexivity. }
+    assert (Hkf : kcons kind (filter f r)).
+    { intros n q Hq. rewrite get_filter_sorted in Hq by exact Hs. destruct (get n r) as [p|] eqn:E; [|discriminate].
+      destruct (f (n, p)); [|discriminate]. inversion Hq; subst. apply (Hk _ _ E). }
+    destruct (Nat.eqb_spec (length (filter f r)) (length r)) as [El|El]; cbn [fst snd].
+    + pose proof (filter_length_eq f r El) as Er. rewrite Er in Hg.
+      split; [discriminate|]. split; [exact Hs|]. split; [exact Hk | exact Hg].
+    + split; [discriminate|]. split; [apply msorted_filter; exact Hs|]. split; [exact Hkf | exact Hg].
+  - cbn. split; [discriminate|]. split; [constructor|]. split; [intros n p; discriminate | reflexivity].
+Qed.
+
+Lemma hexec_unlogged r c : hlogged (snd (hexec r c)) = false -> fst (hexec r c) = r.
+Proof.
+  destruct c as [n' h|n' c|pat c|]; cbn [hexec].
+  - destruct (get n' r) as [p|]; [|discriminate].
+    destruct (negb (Bool.eqb (h_chan p) (h_chan h))); [reflexivity|]. destruct (hook_same p h); [reflexivity | discriminate].
+  - destruct (get n' r) as [p|]; [|reflexivity]. destruct (Bool.eqb (h_chan p) c); [discriminate | reflexivity].
+  - destruct (Nat.eqb _ _); [reflexivity | discriminate].
+  - discriminate.
+Qed.
+
+Lemma hreplay_orig_spec kind l : forall r, msorted r -> kcons kind r -> Forall (hcmd_ok kind) l ->
+  exists reg, hreplay_orig l r = Some reg /\
+              forall n, get n reg = match hlast kind l n with Some y => y | None => get n r end.
+Proof.
+  induction l as [|c l IH]; intros r Hs Hk Hl; cbn [hreplay_orig hlast].
+  - exists r. auto.
+  - inversion Hl as [|? ? Hc Hl']; subst. destruct (hexec_spec kind r c Hs Hk Hc) as [Hnf [Hs' [Hk' Hg]]].
+    destruct (hexec r c) as [r' o]. cbn [fst snd] in *.
+    destruct (IH r' Hs' Hk' Hl') as [reg [Hrep Hget]]. exists reg. split.
+    + destruct o; [exact Hrep | exact Hrep | congruence].
+    + intros n. rewrite Hget, Hg. destruct (hlast kind l n); reflexivity.
+Qed.
+
+Definition hpending (n : bytes) (hs : hshrink) : Prop :=
+  match hs_pos hs with HNames => True | HEmit names => In n names | HDone => False end.
+
+Definition hrec_ok (kind : bytes -> bool) (c : hcmd) : Prop := exists n h, c = HSet n h /\ h_chan h = kind n.
+
+Record hinv (kind : bytes -> bool) (r0 : hreg) (r : hrun) : Prop := {
+  h_sorted : msorted (hr_live r);
+  h_kc : kcons kind (hr_live r);
+  h_logok : Forall (hcmd_ok kind) (hr_log r);
+  h_live : forall n, get n (hr_live r) = match hlast kind (hr_log r) n with Some y => y | None => get n r0 end;
+  h_outok : Forall (hrec_ok kind) (hs_out (hr_sh r));
+  h_sound : forall n h, hlast kind (hr_log r) n = None -> In (HSet n h) (hs_out (hr_sh r)) -> get n r0 = Some h;
+  h_cover : forall n h, hlast kind (hr_log r) n = None -> get n r0 = Some h ->
+              In (HSet n h) (hs_out (hr_sh r)) \/ hpending n (hr_sh r)
+}.
+
+Lemma hnext_pending n names : In n names -> hpending n (mkHShrink (hnext names) []) .
+Proof. destruct names; cbn; [tauto|]. unfold hpending; cbn. tauto. Qed.
+
+Lemma hinv_step kind r0 r e : hev_kind_ok kind e = true -> hinv kind r0 r -> hinv kind r0 (hdo_ev r e).
+Proof.
+  intros He [Hs Hk Hlog Hlive Hout Hsound Hcover]. destruct e as [c|]; cbn [hdo_ev].
+  - assert (Hc : hcmd_ok kind c).
+    { destruct c; cbn in *; try exact I. apply Bool.eqb_prop; exact He. }
+    destruct (hexec_spec kind (hr_live r) c Hs Hk Hc) as [Hnf [Hs' [Hk' Hg]]].
+    pose proof (hexec_unlogged (hr_live r) c) as Hnl.
+    destruct (hexec (hr_live r) c) as [r' o]. cbn [fst snd] in *. destruct (hlogged o) eqn:Elog.
+    + constructor; cbn [hr_live hr_sh hr_log]; auto.
+      * apply Forall_app. split; [exact Hlog | constructor; [exact Hc | constructor]].
+      * intros n. rewrite hlast_app. cbn [hlast]. rewrite Hg, Hlive. destruct (htouch kind c n); reflexivity.
+      * intros n h Hlt. rewrite hlast_app in Hlt. cbn [hlast] in Hlt.
+        destruct (htouch kind c n); [discriminate|]. apply Hsound; exact Hlt.
+      * intros n h Hlt. rewrite hlast_app in Hlt. cbn [hlast] in Hlt.
+        destruct (htouch kind c n); [discriminate|]. apply Hcover; exact Hlt.
+    + rewrite (Hnl eq_refl) in *. constructor; cbn [hr_live hr_sh hr_log]; auto.
+  - unfold hstep. destruct (hs_pos (hr_sh r)) as [|names|] eqn:Ep.
+    + (* the names batch *)
+      constructor; cbn [hr_live hr_sh hr_log hs_out hs_pos]; auto.
+      intros n h Hlt H0. destruct (Hcover n h Hlt H0) as [Hin|_]; [left; exact Hin|]. right.
+      assert (Hin : In n (keys (hr_live r))).
+      { apply (get_in_keys n (hr_live r) h). rewrite Hlive, Hlt. exact H0. }
+      unfold hpending. cbn [hs_pos]. destruct (keys (hr_live r)); [destruct Hin | exact Hin].
+    + destruct names as [|m rest].
+      * constructor; cbn [hr_live hr_sh hr_log hs_out hs_pos]; auto.
+        intros n h Hlt H0. destruct (Hcover n h Hlt H0) as [Hin|Hp]; [left; exact Hin|].
+        unfold hpending in Hp. rewrite Ep in Hp. destruct Hp.
+      * assert (Hpend : forall n, In n rest -> hpending n (mkHShrink (hnext rest) (hs_out (hr_sh r)))).
+        { intros n Hn. unfold hpending; cbn [hs_pos]. destruct rest; [destruct Hn | exact Hn]. }
+        destruct (get m (hr_live r)) as [hm|] eqn:Em.
+        -- constructor; cbn [hr_live hr_sh hr_log hs_out hs_pos]; auto.
+           ++ apply Forall_app. split; [exact Hout|]. constructor; [|constructor]. exists m, hm. split; [reflexivity|]. apply (Hk _ _ Em).
+           ++ intros n h Hlt Hin. apply in_app_iff in Hin. destruct Hin as [Hin|[Heq|[]]]; [apply Hsound; assumption|].
+              inversion Heq; subst. rewrite Hlive, Hlt in Em. exact Em.
+           ++ intros n h Hlt H0. destruct (Hcover n h Hlt H0) as [Hin|Hp]; [left; apply in_app_iff; left; exact Hin|].
+              unfold hpending in Hp. rewrite Ep in Hp. destruct Hp as [->|Hp].
+              ** left. apply in_app_iff. right. left. rewrite Hlive, Hlt, H0 in Em. inversion Em; reflexivity.
+              ** right. unfold hpending; cbn [hs_pos]. destruct rest; [destruct Hp | exact Hp].
+        -- constructor; cbn [hr_live hr_sh hr_log hs_out hs_pos]; auto.
+           intros n h Hlt H0. destruct (Hcover n h Hlt H0) as [Hin|Hp]; [left; exact Hin|].
+           unfold hpending in Hp. rewrite Ep in Hp. destruct Hp as [->|Hp].
+           ** rewrite Hlive, Hlt, H0 in Em. discriminate.
+           ** right. unfold hpending; cbn [hs_pos]. destruct rest; [destruct Hp | exact Hp].
+    + (* done *)
+      assert (E : mkHRun (hr_live r) (hr_sh r) (hr_log r) = r) by (destruct r; reflexivity).
+      constructor; cbn [hr_live hr_sh hr_log]; auto.
+Qed.
+
+Theorem hooks_orig_partial r0 sched kind : msorted r0 -> kind_consistent kind r0 sched = true ->
+  let r := hrun_sched sched (hrun_init r0) in
+  hs_done (hr_sh r) = true ->
+  exists reg, hreplay_orig (hnewfile r) [] = Some reg /\ forall n, get n reg = get n (hr_live r).
+Proof.
+  intros Hs Hkc r Hdone. unfold kind_consistent in Hkc. apply andb_true_iff in Hkc. destruct Hkc as [Hk0 Hsched].
+  assert (Hinit : hinv kind r0 (hrun_init r0)).
+  { constructor; cbn; auto.
+    - intros n p Hg. apply get_In in Hg. rewrite forallb_forall in Hk0. apply Hk0 in Hg. cbn in Hg.
+      apply Bool.eqb_prop; exact Hg.
+    - intros n h _ []. }
+  assert (Hinv : hinv kind r0 r).
+  { unfold r, hrun_sched. generalize (hrun_init r0) Hinit. clear r Hdone Hinit.
+    induction sched as [|e sched IH]; intros r Hr; cbn [fold_left]; [exact Hr|].
+    cbn in Hsched. apply andb_true_iff in Hsched. destruct Hsched as [He Hsched].
+    apply IH; [exact Hsched|]. apply hinv_step; assumption. }
+  destruct Hinv as [_ _ Hlog Hlive Hout Hsound Hcover].
+  assert (Hok : Forall (hcmd_ok kind) (hnewfile r)).
+  { unfold hnewfile. apply Forall_app. split; [|exact Hlog]. eapply Forall_impl; [|exact Hout].
+    intros c [n [h [-> Hc]]]. exact Hc. }
+  assert (Hnil : kcons kind []) by (intros n p; discriminate).
+  destruct (hreplay_orig_spec kind (hnewfile r) [] (msorted_nil) Hnil Hok) as [reg [Hrep Hget]].
+  exists reg. split; [exact Hrep|]. intros n. rewrite Hget, Hlive. unfold hnewfile. rewrite hlast_app.
+  destruct (hlast kind (hr_log r) n) as [x|] eqn:Elt; [reflexivity|]. cbn [get].
+  destruct (hlast kind (hs_out (hr_sh r)) n) as [x|] eqn:Eo.
+  - destruct (hlast_some _ _ _ _ Eo) as [c [Hc Ht]]. rewrite Forall_forall in Hout.
+    destruct (Hout c Hc) as [n' [h [-> _]]]. cbn in Ht. destruct (bytes_eqb n n') eqn:En; [|discriminate].
+    apply bytes_eqb_eq in En; subst n'. inversion Ht; subst. symmetry. apply Hsound; assumption.
+  - destruct (get n r0) as [h|] eqn:E0; [|reflexivity]. exfalso.
+    destruct (Hcover n h Elt E0) as [Hin|Hp].
+    + pose proof (hlast_none _ _ _ Eo _ Hin) as Ht. cbn in Ht. rewrite bytes_eqb_refl in Ht. discriminate.
+    + unfold hs_done in Hdone. unfold hpending in Hp. destruct (hs_pos (hr_sh r)); try discriminate. exact Hp.
+Qed.
+
+(* a name that changes its kind during the rewrite: the new file does not load *)
+Definition hookA : hook := mkHook false (b1 65) false.
+Definition chanB : hook := mkHook true (b1 66) false.
+Definition hsched_switch : list hev :=
+  [HW (HSet (b1 120) hookA); HW (HDel (b1 120) false); HW (HSet (b1 120) chanB); HStep; HStep].
+
+Theorem hook_kind_switch_refuted :
+  exists r0 sched, msorted r0 /\ hs_done (hr_sh (hrun_sched sched (hrun_init r0))) = true /\
+    hreplay_orig (hnewfile (hrun_sched sched (hrun_init r0))) [] = None.
+Proof. exists [], hsched_switch. split; [constructor|]. split; reflexivity. Qed.
+
+(* hooks example: SETHOOK / SETCHAN / DELHOOK / PDELCHAN between the sections of the hooks phase *)
+Definition ex_hooks : hreg :=
+  [(b1 97, mkHook false (b1 49) false); (b1 98, mkHook true (b1 50) true); (b1 99, mkHook false (b1 51) false);
+   (b1 100, mkHook true (b1 52) false)].
+Definition ex_hkind (n : bytes) : bool := match n with [x] => N.even x | _ => false end.
+Definition ex_hsched : list hev :=
+  [HW (HSet (b1 101) (mkHook false (b1 53) false)); HW (HSet (b1 97) (mkHook false (b1 49) false));
+   HStep; HW (HDel (b1 98) true); HW (HDel (b1 99) true); HStep; HW (HSet (b1 97) (mkHook false (b1 57) true));
+   HStep; HW (HPdel (b1 100) true); HW (HSet (b1 102) (mkHook true (b1 54) false)); HStep; HStep; HStep; HStep].
+
+(* ---- the repaired loader (an HFatal record is ignored): no hypothesis on kinds ---- *)
+
+(* exact per-name action of a command *)
+Definition hact (c : hcmd) (n : bytes) (x : option hook) : option hook :=
+  match c with
+  | HSet n' h =>
+      if bytes_eqb n n' then
+        match x with
+        | Some p => if negb (Bool.eqb (h_chan p) (h_chan h)) then x else if hook_same p h then x else Some h
+        | None => Some h
+        end
+      else x
+  | HDel n' c =>
+      if bytes_eqb n n' then
+        match x with Some p => if Bool.eqb (h_chan p) c then None else x | None => x end
+      else x
+  | HPdel pat c =>
+      match x with Some p => if pmatch pat n && Bool.eqb (h_chan p) c then None else x | None => None end
+  | HFlush => None
+  end.
+
+Fixpoint hacts (l : list hcmd) (n : bytes) (x : option hook) : option hook :=
+  match l with [] => x | c :: r => hacts r n (hact c n x) end.
+
+Lemma hacts_app a b n x : hacts (a ++ b) n x = hacts b n (hacts a n x).
+Proof. revert x. induction a as [|c a IH]; intros x; cbn; [reflexivity | apply IH]. Qed.
+
+Lemma hexec_sorted r c : msorted r -> msorted (fst (hexec r c)).
+Proof.
+  intros Hs. destruct c as [n' h|n' c|pat c|]; cbn [hexec].
+  - destruct (get n' r) as [p|]; [|apply msorted_set; exact Hs].
+    destruct (negb _); [exact Hs|]. destruct (hook_same p h); [exact Hs | apply msorted_set; exact Hs].
+  - destruct (get n' r) as [p|]; [|exact Hs]. destruct (Bool.eqb _ _); [apply msorted_del; exact Hs | exact Hs].
+  - cbv zeta. destruct (Nat.eqb _ _); [exact Hs | apply msorted_filter; exact Hs].
+  - constructor.
+Qed.
+
+Lemma hexec_act r c n : msorted r -> get n (fst (hexec r c)) = hact c n (get n r).
+Proof.
+  intros Hs. destruct c as [n' h|n' c|pat c|]; cbn [hexec hact].
+  - destruct (bytes_eqb n n') eqn:En.
+    + apply bytes_eqb_eq in En; subst n'. destruct (get n r) as [p|] eqn:E; cbn [fst].
+      * destruct (negb (Bool.eqb (h_chan p) (h_chan h))); cbn [fst]; [exact E|].
+        destruct (hook_same p h); cbn [fst]; [exact E | apply get_set_same].
+      * apply get_set_same.
+    + apply eqb_false_neq in En. destruct (get n' r) as [p|]; cbn [fst]; [|apply get_set_other; exact En].
+      destruct (negb _); cbn [fst]; [reflexivity|]. destruct (hook_same p h); cbn [fst]; [reflexivity | apply get_set_other; exact En].
+  - destruct (bytes_eqb n n') eqn:En.
+    + apply bytes_eqb_eq in En; subst n'. destruct (get n r) as [p|] eqn:E; cbn [fst]; [|exact E].
+      destruct (Bool.eqb (h_chan p) c); cbn [fst]; [apply get_del_same; exact Hs | exact E].
+    + apply eqb_false_neq in En. destruct (get n' r) as [p|]; cbn [fst]; [|reflexivity].
+      destruct (Bool.eqb _ _); cbn [fst]; [apply get_del_other; exact En | reflexivity].
+  - cbv zeta. set (f := fun nh : bytes * hook => negb (pmatch pat (fst nh) && Bool.eqb (h_chan (snd nh)) c)).
+    assert (Hg : get n (filter f r) = match get n r with
+                                      | Some p => if pmatch pat n && Bool.eqb (h_chan p) c then None else get n r
+                                      | None => None end).
+    { rewrite get_filter_sorted by exact Hs. destruct (get n r) as [p|]; [|reflexivity]. unfold f. cbn [fst snd].
+      destruct (pmatch pat n && Bool.eqb (h_chan p) c); reflexivity. }
+    destruct (Nat.eqb_spec (length (filter f r)) (length r)) as [El|El]; cbn [fst]; [|exact Hg].
+    rewrite (filter_length_eq f r El) in Hg. exact Hg.
+  - reflexivity.
+Qed.
+
+Lemma hreplay_get l : forall r n, msorted r -> get n (hreplay l r) = hacts l n (get n r).
+Proof.
+  induction l as [|c l IH]; intros r n Hs; cbn [hreplay hacts]; [reflexivity|].
+  rewrite IH by (apply hexec_sorted; exact Hs). rewrite hexec_act by exact Hs. reflexivity.
+Qed.
+
+(* what `logged` tells about the name n: a logged SETHOOK/SETCHAN n found n absent or of its kind,
+   a logged DELHOOK/DELCHAN n found it with that kind (PDEL* and FLUSHDB tell nothing about n) *)
+Definition heff (c : hcmd) (n : bytes) (x : option hook) : Prop :=
+  match c with
+  | HSet n' h => n = n' -> x = None \/ exists p, x = Some p /\ h_chan p = h_chan h
+  | HDel n' c => n = n' -> exists p, x = Some p /\ h_chan p = c
+  | _ => True
+  end.
+
+Fixpoint okh (l : list hcmd) (n : bytes) (x : option hook) : Prop :=
+  match l with [] => True | c :: r => heff c n x /\ okh r n (hact c n x) end.
+
+Lemma okh_app a b n x : okh (a ++ b) n x <-> okh a n x /\ okh b n (hacts a n x).
+Proof. revert x. induction a as [|c a IH]; intros x; cbn; [tauto|]. rewrite IH. tauto. Qed.
+
+Lemma hexec_logged_eff r c n : hlogged (snd (hexec r c)) = true -> heff c n (get n r).
+Proof.
+  destruct c as [n' h|n' c|pat c|]; cbn [hexec heff]; try (intros; exact I).
+  - intros Hl ->. destruct (get n' r) as [p|]; [|left; reflexivity]. right. exists p. split; [reflexivity|].
+    destruct (Bool.eqb (h_chan p) (h_chan h)) eqn:E; [apply Bool.eqb_prop; exact E | discriminate Hl].
+  - intros Hl ->. destruct (get n' r) as [p|]; [|discriminate Hl]. exists p. split; [reflexivity|].
+    destruct (Bool.eqb (h_chan p) c) eqn:E; [apply Bool.eqb_prop; exact E | discriminate Hl].
+Qed.
+
+(* lock-step: u the original run, w the replay that started from y; they are equal, or the replay
+   still holds y, or the replay lost y to a PDEL of y's kind while the original holds another kind *)
+Definition HInv (y u w : option hook) : Prop :=
+  w = u \/ w = y \/ (w = None /\ exists p q, u = Some p /\ y = Some q /\ h_chan p <> h_chan q).
+
+Lemma heff_set_result n h x : heff (HSet n h) n x -> hact (HSet n h) n x = Some h.
+Proof.
+  cbn. rewrite bytes_eqb_refl. intros H. destruct (H eq_refl) as [->|[p [-> Hk]]]; [reflexivity|].
+  rewrite Hk, Bool.eqb_reflx. cbn [negb]. destruct (hook_same p h) eqn:E; [|reflexivity].
+  f_equal. apply hook_same_eq; assumption.
+Qed.
+
+Lemma eqb_neq_false a b : a <> b -> Bool.eqb a b = false.
+Proof. destruct a, b; cbn; congruence. Qed.
+
+Lemma HInv_step y c n u w : heff c n u -> HInv y u w -> HInv y (hact c n u) (hact c n w).
+Proof.
+  intros He [->|[->|[-> [p [q [-> [-> Hpq]]]]]]].
+  - left; reflexivity.
+  - (* the replay still holds y *)
+    destruct c as [n' h|n' c|pat c|].
+    + destruct (bytes_eqb n n') eqn:En; [|cbn; rewrite En; right; left; reflexivity].
+      apply bytes_eqb_eq in En; subst n'. rewrite (heff_set_result n h u He).
+      cbn. rewrite bytes_eqb_refl. destruct y as [q|]; [|left; reflexivity].
+      destruct (Bool.eqb (h_chan q) (h_chan h)) eqn:Ek; cbn [negb]; [|right; left; reflexivity].
+      destruct (hook_same q h) eqn:Es; [|left; reflexivity]. left. f_equal. apply hook_same_eq; [exact Es|].
+      apply Bool.eqb_prop; exact Ek.
+    + cbn in *. destruct (bytes_eqb n n') eqn:En; [|right; left; reflexivity].
+      apply bytes_eqb_eq in En; subst n'. destruct (He eq_refl) as [p [-> Hk]]. rewrite Hk, Bool.eqb_reflx.
+      destruct y as [q|]; [|left; reflexivity]. destruct (Bool.eqb (h_chan q) c); [left; reflexivity | right; left; reflexivity].
+    + cbn. destruct y as [q|]; [|destruct u as [p|]; [right; left; reflexivity | left; reflexivity]].
+      destruct (pmatch pat n && Bool.eqb (h_chan q) c) eqn:Eq; [|right; left; reflexivity].
+      destruct u as [p|]; [|left; reflexivity].
+      destruct (pmatch pat n && Bool.eqb (h_chan p) c) eqn:Ep; [left; reflexivity|].
+      right; right. split; [reflexivity|]. exists p, q. split; [reflexivity|]. split; [reflexivity|].
+      intros Hk. rewrite Hk in Ep. congruence.
+    + left; reflexivity.
+  - (* the replay is empty, the original holds p of another kind than y = q *)
+    destruct c as [n' h|n' c|pat c|].
+    + destruct (bytes_eqb n n') eqn:En.
+      * apply bytes_eqb_eq in En; subst n'. rewrite (heff_set_result n h (Some p) He).
+        cbn. rewrite bytes_eqb_refl. left; reflexivity.
+      * cbn. rewrite En. right; right. split; [reflexivity|]. exists p, q. auto.
+    + cbn in *. destruct (bytes_eqb n n') eqn:En.
+      * apply bytes_eqb_eq in En; subst n'. destruct (He eq_refl) as [p' [Hp Hk]]. inversion Hp; subst p'.
+        rewrite Hk, Bool.eqb_reflx. left; reflexivity.
+      * right; right. split; [reflexivity|]. exists p, q. auto.
+    + cbn. destruct (pmatch pat n && Bool.eqb (h_chan p) c); [left; reflexivity|].
+      right; right. split; [reflexivity|]. exists p, q. auto.
+    + left; reflexivity.
+Qed.
+
+Lemma HInv_run y n l : forall u w, okh l n u -> HInv y u w -> HInv y (hacts l n u) (hacts l n w).
+Proof.
+  induction l as [|c l IH]; intros u w Hok Hi; cbn [hacts]; [exact Hi|].
+  destruct Hok as [He Hok]. apply IH; [exact Hok|]. apply HInv_step; assumption.
+Qed.
+
+(* the hook shrinklog is idempotent on the states of its run, whatever the kinds *)
+Theorem hacts_idem l n x0 : okh l n x0 -> hacts l n (hacts l n x0) = hacts l n x0.
+Proof.
+  intros Hok. set (y := hacts l n x0).
+  assert (Hi : HInv y (hacts l n x0) (hacts l n y)) by (apply HInv_run; [exact Hok | right; left; reflexivity]).
+  fold y in Hi. destruct Hi as [H|[H|[_ [p [q [Hp [Hq Hpq]]]]]]]; [exact H | exact H|].
+  exfalso. rewrite Hp in Hq. inversion Hq; subst. apply Hpq; reflexivity.
+Qed.
+
+Theorem hlog_idempotent n l1 l2 x0 : okh (l1 ++ l2) n x0 ->
+  hacts (l1 ++ l2) n (hacts l1 n x0) = hacts (l1 ++ l2) n x0.
+Proof.
+  intros Hok. apply okh_app in Hok. destruct Hok as [Hok _]. rewrite !hacts_app, hacts_idem by exact Hok. reflexivity.
+Qed.
+
+Definition is_hset (c : hcmd) : Prop := match c with HSet _ _ => True | _ => False end.
+
+Lemma hacts_out_some out n : Forall is_hset out -> forall x h, hacts out n x = Some h -> x = Some h \/ In (HSet n h) out.
+Proof.
+  induction 1 as [|c out Hc _ IH]; intros x h; cbn [hacts]; [auto|]. intros H. destruct (IH _ _ H) as [H1|H1]; [|right; right; exact H1].
+  destruct c as [n' h'| | |]; try destruct Hc. cbn in H1. destruct (bytes_eqb n n') eqn:En; [|left; exact H1].
+  apply bytes_eqb_eq in En; subst n'. destruct x as [p|].
+  - destruct (negb _); [left; exact H1|]. destruct (hook_same p h'); [left; exact H1|]. inversion H1; subst. right; left; reflexivity.
+  - inversion H1; subst. right; left; reflexivity.
+Qed.
+
+Lemma hacts_some_stays l n : Forall is_hset l -> forall q, hacts l n (Some q) <> None.
+Proof.
+  induction 1 as [|c' l' Hc' _ IH']; intros q'; cbn [hacts]; [discriminate|].
+  destruct c' as [n' h'| | |]; try destruct Hc'. cbn. destruct (bytes_eqb n n'); [|apply IH'].
+  destruct (negb _); [apply IH'|]. destruct (hook_same q' h'); apply IH'.
+Qed.
+
+Lemma hacts_out_none out n : Forall is_hset out -> forall x, hacts out n x = None -> forall h, ~ In (HSet n h) out.
+Proof.
+  induction 1 as [|c out Hc Hrest IH]; intros x; cbn [hacts]; [intros _ h []|]. intros H h [Heq|Hin].
+  - subst c. assert (Hx : exists q, hact (HSet n h) n x = Some q).
+    { cbn. rewrite bytes_eqb_refl. destruct x as [p|]; [|eexists; reflexivity].
+      destruct (negb _); [eexists; reflexivity|]. destruct (hook_same p h); eexists; reflexivity. }
+    destruct Hx as [q Hq]. rewrite Hq in H. exact (hacts_some_stays out n Hrest q H).
+  - exact (IH _ H h Hin).
+Qed.
+
+Definition hprefix (log : list hcmd) (n : bytes) (x0 y : option hook) : Prop :=
+  exists l1 l2, log = l1 ++ l2 /\ hacts l1 n x0 = y.
+
+Lemma hprefix_snoc log c n x0 y : hprefix log n x0 y -> hprefix (log ++ [c]) n x0 y.
+Proof. intros [l1 [l2 [-> H]]]. exists l1, (l2 ++ [c]). rewrite app_assoc. auto. Qed.
+
+Lemma hprefix_now log n x0 : hprefix log n x0 (hacts log n x0).
+Proof. exists log, []. rewrite app_nil_r. auto. Qed.
+
+Record hginv (r0 : hreg) (r : hrun) : Prop := {
+  g_sorted : msorted (hr_live r);
+  g_live : forall n, get n (hr_live r) = hacts (hr_log r) n (get n r0);
+  g_ok : forall n, okh (hr_log r) n (get n r0);
+  g_out : Forall is_hset (hs_out (hr_sh r));
+  g_sound : forall n h, In (HSet n h) (hs_out (hr_sh r)) -> hprefix (hr_log r) n (get n r0) (Some h);
+  g_cover : forall n, (exists h, In (HSet n h) (hs_out (hr_sh r))) \/ hpending n (hr_sh r) \/
+                      hprefix (hr_log r) n (get n r0) None
+}.
+
+Lemma hginv_step r0 r e : hginv r0 r -> hginv r0 (hdo_ev r e).
+Proof.
+  intros [Hs Hlive Hok Hout Hsound Hcover]. destruct e as [c|]; cbn [hdo_ev].
+  - pose proof (hexec_sorted (hr_live r) c Hs) as Hs'.
+    pose proof (fun n => hexec_act (hr_live r) c n Hs) as Hg.
+    pose proof (hexec_unlogged (hr_live r) c) as Hnl.
+    pose proof (fun n => hexec_logged_eff (hr_live r) c n) as Hle.
+    destruct (hexec (hr_live r) c) as [r' o]. cbn [fst snd] in *. destruct (hlogged o) eqn:Elog.
+    + constructor; cbn [hr_live hr_sh hr_log]; auto.
+      * intros n. rewrite hacts_app. cbn [hacts]. rewrite Hg, Hlive. reflexivity.
+      * intros n. apply okh_app. split; [apply Hok|]. cbn. split; [|exact I]. rewrite <- Hlive. apply Hle; reflexivity.
+      * intros n h Hin. apply hprefix_snoc, Hsound, Hin.
+      * intros n. destruct (Hcover n) as [H|[H|H]]; [left; exact H | right; left; exact H | right; right; apply hprefix_snoc, H].
+    + rewrite (Hnl eq_refl) in *. constructor; cbn [hr_live hr_sh hr_log]; auto.
+  - unfold hstep. destruct (hs_pos (hr_sh r)) as [|names|] eqn:Ep.
+    + constructor; cbn [hr_live hr_sh hr_log hs_out hs_pos]; auto.
+      intros n. destruct (Hcover n) as [H|[_|H]]; [left; exact H| |right; right; exact H].
+      destruct (get n (hr_live r)) as [h|] eqn:E.
+      * right; left. apply get_in_keys in E. unfold hpending. cbn [hs_pos]. destruct (keys (hr_live r)); [destruct E | exact E].
+      * right; right. rewrite Hlive in E. pose proof (hprefix_now (hr_log r) n (get n r0)) as P. rewrite E in P. exact P.
+    + destruct names as [|m rest].
+      * constructor; cbn [hr_live hr_sh hr_log hs_out hs_pos]; auto.
+        intros n. destruct (Hcover n) as [H|[H|H]]; [left; exact H| |right; right; exact H].
+        unfold hpending in H. rewrite Ep in H. destruct H.
+      * assert (Hrest : forall n out, In n rest -> hpending n (mkHShrink (hnext rest) out)).
+        { intros n out Hn. unfold hpending; cbn [hs_pos]. destruct rest; [destruct Hn | exact Hn]. }
+        destruct (get m (hr_live r)) as [hm|] eqn:Em.
+        -- constructor; cbn [hr_live hr_sh hr_log hs_out hs_pos]; auto.
+           ++ apply Forall_app. split; [exact Hout | constructor; [exact I | constructor]].
+           ++ intros n h Hin. apply in_app_iff in Hin. destruct Hin as [Hin|[Heq|[]]]; [apply Hsound; exact Hin|].
+              inversion Heq; subst. rewrite Hlive in Em. pose proof (hprefix_now (hr_log r) n (get n r0)) as P. rewrite Em in P. exact P.
+           ++ intros n. destruct (Hcover n) as [[h H]|[H|H]]; [left; exists h; apply in_app_iff; left; exact H| |right; right; exact H].
+              unfold hpending in H. rewrite Ep in H. destruct H as [<-|H].
+              ** left. exists hm. apply in_app_iff. right; left; reflexivity.
+              ** right; left. apply Hrest; exact H.
+        -- constructor; cbn [hr_live hr_sh hr_log hs_out hs_pos]; auto.
+           intros n. destruct (Hcover n) as [H|[H|H]]; [left; exact H| |right; right; exact H].
+           unfold hpending in H. rewrite Ep in H. destruct H as [<-|H].
+           ** right; right. rewrite Hlive in Em. pose proof (hprefix_now (hr_log r) m (get m r0)) as P. rewrite Em in P. exact P.
+           ** right; left. apply Hrest; exact H.
+    + constructor; cbn [hr_live hr_sh hr_log]; auto.
+Qed.
+
+Theorem hooks_preserved r0 sched : msorted r0 ->
+  let r := hrun_sched sched (hrun_init r0) in
+  hs_done (hr_sh r) = true -> forall n, get n (hreplay (hnewfile r) []) = get n (hr_live r).
+Proof.
+  intros Hs r Hdone n.
+  assert (Hinit : hginv r0 (hrun_init r0)).
+  { constructor; cbn; auto. intros n' h []. }
+  assert (Hinv : hginv r0 r).
+  { unfold r, hrun_sched. generalize (hrun_init r0) Hinit. clear r Hdone Hinit.
+    induction sched as [|e sched IH]; intros r Hr; cbn [fold_left]; [exact Hr|]. apply IH. apply hginv_step; exact Hr. }
+  destruct Hinv as [_ Hlive Hok Hout Hsound Hcover].
+  rewrite hreplay_get by constructor. cbn [get]. unfold hnewfile. rewrite hacts_app, Hlive.
+  assert (Hkey : forall y, hprefix (hr_log r) n (get n r0) y -> hacts (hr_log r) n y = hacts (hr_log r) n (get n r0)).
+  { intros y [l1 [l2 [Hl Hy]]]. specialize (Hok n). rewrite Hl in *. rewrite <- Hy. apply hlog_idempotent; exact Hok. }
+  apply Hkey. destruct (hacts (hs_out (hr_sh r)) n None) as [h|] eqn:E.
+  - destruct (hacts_out_some _ n Hout _ _ E) as [H|H]; [discriminate|]. apply Hsound; exact H.
+  - pose proof (hacts_out_none _ n Hout _ E) as Hno.
+    destruct (Hcover n) as [[h H]|[H|H]]; [exfalso; eapply Hno; exact H| |exact H].
+    exfalso. unfold hs_done in Hdone. unfold hpending in H. destruct (hs_pos (hr_sh r)); try discriminate. exact H.
+Qed.
+
+(* ------------------------------------------------------------------ 11. TTL digits *)
+
+Local Open Scope Z_scope.
+
+Theorem ttl_floor ex now : 100000000 <= ex - now ->
+  let t := obj_ttl_tenths ex now * 100000000 in t <= ex - now < t + 100000000.
+Proof.
+  intros H t. unfold t, obj_ttl_tenths.
+  pose proof (Z.div_mod (ex - now) 100000000 ltac:(lia)) as Hd.
+  pose proof (Z.mod_pos_bound (ex - now) 100000000 ltac:(lia)) as Hm.
+  assert (1 <= (ex - now) / 100000000) by (apply Z.div_le_lower_bound; lia). lia.
+Qed.
+
+Theorem ttl_minimum ex now : ex - now < 100000000 -> obj_ttl_tenths ex now = 1.
+Proof.
+  intros H. unfold obj_ttl_tenths.
+  assert ((ex - now) / 100000000 <= 0); [|lia].
+  destruct (Z_lt_le_dec (ex - now) 0) as [Hn|Hp].
+  - pose proof (Z.div_lt_upper_bound (ex - now) 100000000 0 ltac:(lia) ltac:(lia)). lia.
+  - rewrite Z.div_small by lia. lia.
+Qed.
+
+Theorem hook_ttl_round ex now :
+  let t := hook_ttl_tenths ex now * 100000000 in t - 50000000 <= ex - now < t + 50000000.
+Proof.
+  intros t. unfold t, hook_ttl_tenths.
+  pose proof (Z.div_mod (ex - now + 50000000) 100000000 ltac:(lia)) as Hd.
+  pose proof (Z.mod_pos_bound (ex - now + 50000000) 100000000 ltac:(lia)) as Hm. lia.
+Qed.
